@@ -5,6 +5,7 @@ import (
 	"go/constant"
 	"go/token"
 	"go/types"
+	"os"
 	"sort"
 	"strings"
 
@@ -33,6 +34,9 @@ func init() {
 			"value identity = same SSA value, or the same field path of the same single-assignment local / parameter",
 			"a method called on a freshly allocated receiver inside its constructor runs before the object escapes",
 			"randomness source returns values in the full uint32 range (only the modulus is inspected)",
+			"anchors (table, census, mutexes, entry counters, frame codec and header fields, size-range fields, salt/header sizes) are resolved by type, signature, data flow and use; declared names are only a fallback (HV_C14_NONAMES=1 disables it)",
+			"package-level error variables and errors.New/fmt.Errorf results are non-nil (used to tell a validator's failure returns from its success return)",
+			"a helper entered from a call site that holds a mutex runs under it unless the helper itself unlocks it",
 		},
 	})
 }
@@ -164,12 +168,30 @@ func c14resolve(c *Check) *c14ctx {
 			mutexes = append(mutexes, f)
 		}
 	}
-	for _, m := range mutexes {
-		switch m.Name() {
-		case "mu":
-			x.fMu = m
-		case "readMu":
-			x.fReadMu = m
+	for _, fn := range p.RepoFns {
+		if pk := fnPkg(fn); pk != nil && pk.Pkg.Path() == pObfs {
+			x.fns = append(x.fns, fn)
+		}
+	}
+	// mutexes by role: the one locked by the functions that touch the table,
+	// the one locked by the functions that take the read buffer; names only as
+	// a fallback.
+	x.fMu = c14mutexFor(x.fns, mutexes, x.fTable, nil)
+	if x.fReadBuf != nil {
+		x.fReadMu = c14mutexFor(x.fns, mutexes, x.fReadBuf, x.fMu)
+	}
+	if x.fMu == nil || x.fReadMu == nil || x.fMu == x.fReadMu {
+		x.fMu, x.fReadMu = nil, nil
+		for _, m := range mutexes {
+			if !c14names() {
+				break
+			}
+			switch m.Name() {
+			case "mu":
+				x.fMu = m
+			case "readMu":
+				x.fReadMu = m
+			}
 		}
 	}
 	kst := x.keyT.Underlying().(*types.Struct)
@@ -188,11 +210,39 @@ func c14resolve(c *Check) *c14ctx {
 		if c14isNamed(f.Type(), "time", "Time") {
 			x.fDeadline = f
 		}
-		switch f.Name() {
-		case "received":
-			x.fReceived = f
-		case "total":
-			x.fTotal = f
+	}
+	// received / total by role: of the entry's integer fields the one that is
+	// bumped (f = f + 1) is the received counter, the other one the declared
+	// total; names only as a fallback.
+	{
+		var ints, counters []*types.Var
+		for i := 0; i < est.NumFields(); i++ {
+			f := est.Field(i)
+			if b, ok := f.Type().Underlying().(*types.Basic); ok && b.Info()&types.IsInteger != 0 {
+				ints = append(ints, f)
+				if c14isCounter(x.fns, f) {
+					counters = append(counters, f)
+				}
+			}
+		}
+		if len(ints) == 2 && len(counters) == 1 {
+			x.fReceived = counters[0]
+			x.fTotal = ints[0]
+			if x.fTotal == x.fReceived {
+				x.fTotal = ints[1]
+			}
+		} else {
+			for _, f := range ints {
+				if !c14names() {
+					break
+				}
+				switch f.Name() {
+				case "received":
+					x.fReceived = f
+				case "total":
+					x.fTotal = f
+				}
+			}
 		}
 	}
 	miss := []string{}
@@ -207,13 +257,66 @@ func c14resolve(c *Check) *c14ctx {
 		c.Unres("obfs " + x.connT.Obj().Name() + ": cannot resolve " + strings.Join(miss, ", "))
 		return nil
 	}
-	for _, fn := range p.RepoFns {
-		if pk := fnPkg(fn); pk != nil && pk.Pkg.Path() == pObfs {
-			x.fns = append(x.fns, fn)
-		}
-	}
 	x.la = p.Locks()
 	return x
+}
+
+// c14mutexFor: the mutex field (not `not`) locked in the largest number of
+// functions that also load field f; nil when there is none or a tie.
+func c14mutexFor(fns []*ssa.Function, mutexes []*types.Var, f, not *types.Var) *types.Var {
+	score := map[*types.Var]int{}
+	for _, fn := range fns {
+		loads := false
+		locked := map[*types.Var]bool{}
+		allInstrs(fn, func(in ssa.Instruction) {
+			if fa, ok := in.(*ssa.FieldAddr); ok && structField(fa.X.Type(), fa.Field) == f {
+				loads = true
+			}
+			if ci, ok := in.(ssa.CallInstruction); ok {
+				if m, op := lockOp(ci); m != nil && (op == "Lock" || op == "RLock") {
+					locked[m] = true
+				}
+			}
+		})
+		if loads {
+			for m := range locked {
+				score[m]++
+			}
+		}
+	}
+	var best *types.Var
+	tie := false
+	for _, m := range mutexes {
+		if m == not || score[m] == 0 {
+			continue
+		}
+		switch {
+		case best == nil || score[m] > score[best]:
+			best, tie = m, false
+		case score[m] == score[best]:
+			tie = true
+		}
+	}
+	if tie {
+		return nil
+	}
+	return best
+}
+
+// c14isCounter: some function stores f = f + 1.
+func c14isCounter(fns []*ssa.Function, f *types.Var) bool {
+	found := false
+	for _, fr := range fieldRefs(fns, f) {
+		if fr.Kind != "store" {
+			continue
+		}
+		if b, ok := c14strip(fr.Val).(*ssa.BinOp); ok && b.Op == token.ADD {
+			if (isConstInt(b.Y, 1) && isLoadOfField(b.X, f)) || (isConstInt(b.X, 1) && isLoadOfField(b.Y, f)) {
+				found = true
+			}
+		}
+	}
+	return found
 }
 
 // ---------------------------------------------------------------------------
@@ -692,6 +795,60 @@ func (x *c14ctx) r1(tab, cen *c14mapUse) {
 		}
 	}
 
+	// census adjustment moved into a helper of the package that is called with
+	// the key's source address (or the key): acquireSource(key.addr) /
+	// releaseSource(k.addr).  The helper writes the census only; its census
+	// writes are matched through the call, and every call site of the helper
+	// must be such a matched call (checked below).
+	viaHelper := map[ssa.Instruction]bool{}
+	helperCalls := map[*ssa.Function]map[ssa.Instruction]bool{}
+	isWrite := func(k string) bool { return k == "update" || k == "delete" || k == "clear" }
+	censusHelper := func(in ssa.Instruction, addr, keyRef c14ref) (*ssa.Function, c14ref, bool) {
+		call, ok := in.(*ssa.Call)
+		if !ok {
+			return nil, c14ref{}, false
+		}
+		H := staticCallee(call)
+		if H == nil || len(H.Blocks) == 0 {
+			return nil, c14ref{}, false
+		}
+		if pk := fnPkg(H); pk == nil || pk.Pkg.Path() != pObfs {
+			return nil, c14ref{}, false
+		}
+		writesCen, writesTab := false, false
+		for _, op := range cen.ops {
+			if op.fn == H && isWrite(op.kind) {
+				writesCen = true
+			}
+		}
+		for _, op := range tab.ops {
+			if op.fn == H && isWrite(op.kind) {
+				writesTab = true
+			}
+		}
+		if !writesCen || writesTab {
+			return nil, c14ref{}, false
+		}
+		for i, a := range call.Call.Args {
+			if i >= len(H.Params) {
+				break
+			}
+			switch c14canon(a) {
+			case addr:
+				return H, c14canon(H.Params[i]), true
+			case keyRef:
+				return H, c14canonP(H.Params[i], []*types.Var{x.fKeyAddr}), true
+			}
+		}
+		return nil, c14ref{}, false
+	}
+	noteHelper := func(H *ssa.Function, call ssa.Instruction) {
+		if helperCalls[H] == nil {
+			helperCalls[H] = map[ssa.Instruction]bool{}
+		}
+		helperCalls[H][call] = true
+	}
+
 	// ---- inserts
 	nIns, nInc := 0, 0
 	for _, op := range tab.writes("update") {
@@ -709,10 +866,38 @@ func (x *c14ctx) r1(tab, cen *c14mapUse) {
 				return ok && !present && c14canon(lk.Index) == kr && x.la.sameRegion(lk, at, x.fMu, lockW)
 			}
 		}
-		_ = keyRef
+		incMemo := map[ssa.Instruction]bool{}
+		incHelper := func(in ssa.Instruction) bool {
+			if v, done := incMemo[in]; done {
+				return v
+			}
+			incMemo[in] = false
+			H, a2, ok := censusHelper(in, addr, keyRef)
+			if !ok {
+				return false
+			}
+			isAdj2 := func(y ssa.Instruction) bool { return isAdjust(y, a2, +1) }
+			if len(exitsReachableAvoiding(H, nil, isAdj2)) != 0 {
+				return false
+			}
+			allInstrs(H, func(y ssa.Instruction) {
+				if !isAdj2(y) {
+					return
+				}
+				matched[y], viaHelper[y] = true, true
+				for _, y2 := range reachFrom(H, y, nil, nil) {
+					if mu, ok := y2.(*ssa.MapUpdate); ok && cen.is(mu.Map) && y2 != y {
+						c.Bad(base+":census-once", r1, p.InstrPos(y2), "a second census update follows the increment for one insert (census drifts)")
+					}
+				}
+			})
+			noteHelper(H, in)
+			incMemo[in] = true
+			return true
+		}
 		c.Req(x.liftKeyGuard(I, I.Key, absent, 0), base+":fresh-key", r1, p.InstrPos(I),
 			"the table insert is reachable without the `key absent` edge of a lookup of the same key in the same critical section (overwriting an entry while counting it again makes the census drift up: the source is locked out)")
-		stop := func(in ssa.Instruction) bool { return isAdjust(in, addr, +1) }
+		stop := func(in ssa.Instruction) bool { return isAdjust(in, addr, +1) || incHelper(in) }
 		exits := exitsReachableAvoiding(fn, I, stop)
 		unl := x.unlockBetween(fn, I, stop, x.fMu)
 		hit := 0
@@ -767,13 +952,39 @@ func (x *c14ctx) r1(tab, cen *c14mapUse) {
 		existed = existed || x.isRangeKeyOf(keyRef.root, tab) && keyRef.path == "" && !keyRef.deref
 		c.Req(existed, base+":existed", r1, p.InstrPos(D),
 			"the table delete (and the census decrement after it) is reachable without knowing the key is present (a miss would still decrement: census drifts down and the per-source cap is exceeded)")
-		isDecr := func(in ssa.Instruction) bool { return isAdjust(in, addr, -1) }
-		isPrune := func(in ssa.Instruction) bool { return isCensusDelete(in, addr) }
-		stopAdj := func(in ssa.Instruction) bool { return isDecr(in) || isPrune(in) }
-		exits := exitsReachableAvoiding(fn, D, stopAdj)
-		unl := x.unlockBetween(fn, D, stopAdj, x.fMu)
-		var decrs, prunes []ssa.Instruction
+		// the adjustment follows the delete in this function, or sits in a helper
+		// called after it with the key's address
+		rFn, rAddr := fn, addr
+		var rFrom ssa.Instruction = D
+		var hcall ssa.Instruction
+		direct := false
 		for _, in := range reachFrom(fn, D, nil, nil) {
+			if isAdjust(in, addr, -1) || isCensusDelete(in, addr) {
+				direct = true
+			}
+		}
+		if !direct {
+			for _, in := range reachFrom(fn, D, nil, nil) {
+				if H, a2, ok := censusHelper(in, addr, keyRef); ok && hcall == nil {
+					rFn, rAddr, rFrom, hcall = H, a2, nil, in
+					noteHelper(H, in)
+				}
+			}
+		}
+		isDecr := func(in ssa.Instruction) bool { return isAdjust(in, rAddr, -1) }
+		isPrune := func(in ssa.Instruction) bool { return isCensusDelete(in, rAddr) }
+		stopAdj := func(in ssa.Instruction) bool { return isDecr(in) || isPrune(in) }
+		stopHere := stopAdj
+		if hcall != nil {
+			stopHere = func(in ssa.Instruction) bool { return in == hcall }
+		}
+		exits := exitsReachableAvoiding(fn, D, stopHere)
+		unl := x.unlockBetween(fn, D, stopHere, x.fMu)
+		if hcall != nil {
+			exits = append(exits, exitsReachableAvoiding(rFn, nil, stopAdj)...)
+		}
+		var decrs, prunes []ssa.Instruction
+		for _, in := range reachFrom(rFn, rFrom, nil, nil) {
 			if isDecr(in) {
 				decrs = append(decrs, in)
 				matched[in] = true
@@ -781,6 +992,9 @@ func (x *c14ctx) r1(tab, cen *c14mapUse) {
 			if isPrune(in) {
 				prunes = append(prunes, in)
 				matched[in] = true
+			}
+			if hcall != nil && (isDecr(in) || isPrune(in)) {
+				viaHelper[in] = true
 			}
 		}
 		nDec += len(decrs)
@@ -790,7 +1004,7 @@ func (x *c14ctx) r1(tab, cen *c14mapUse) {
 		}
 		c.Req((len(decrs) > 0 || len(prunes) > 0) && len(exits) == 0 && unl == nil, base+":census-dec", r1, p.InstrPos(D), detail+" (the source's count never comes back: it is locked out after 8 messages)")
 		for _, d := range decrs {
-			for _, in2 := range reachFrom(fn, d, isTableWrite("delete"), nil) {
+			for _, in2 := range reachFrom(rFn, d, isTableWrite("delete"), nil) {
 				if in2 != d && isDecr(in2) {
 					c.Bad(base+":census-once", r1, p.InstrPos(in2), "the census is decremented twice for one delete")
 				}
@@ -800,11 +1014,11 @@ func (x *c14ctx) r1(tab, cen *c14mapUse) {
 		isPost := func(v ssa.Value) bool {
 			v = c14strip(v)
 			if b, ok := v.(*ssa.BinOp); ok && b.Op == token.SUB {
-				if k, isC := constInt(b.Y); isC && k == 1 && censusLookup(b.X, addr) != nil {
+				if k, isC := constInt(b.Y); isC && k == 1 && censusLookup(b.X, rAddr) != nil {
 					return true
 				}
 			}
-			if lk := censusLookup(v, addr); lk != nil {
+			if lk := censusLookup(v, rAddr); lk != nil {
 				for _, d := range decrs {
 					if dominates(d, lk) {
 						return true
@@ -814,7 +1028,7 @@ func (x *c14ctx) r1(tab, cen *c14mapUse) {
 			return false
 		}
 		isPre := func(v ssa.Value) bool {
-			lk := censusLookup(v, addr)
+			lk := censusLookup(v, rAddr)
 			return lk != nil && !isPost(v)
 		}
 		sign := func(cond ssa.Value, pol bool) int {
@@ -839,7 +1053,7 @@ func (x *c14ctx) r1(tab, cen *c14mapUse) {
 		positive := func(cond ssa.Value, pol bool) bool { return sign(cond, pol) > 0 }
 		nonPositive := func(cond ssa.Value, pol bool) bool { return sign(cond, pol) < 0 }
 		leak := false
-		for _, in := range reachFrom(fn, D, isPrune, positive) {
+		for _, in := range reachFrom(rFn, rFrom, isPrune, positive) {
 			if _, ok := in.(*ssa.Return); ok {
 				leak = true
 			}
@@ -869,7 +1083,18 @@ func (x *c14ctx) r1(tab, cen *c14mapUse) {
 		}
 		c.Req(matched[op.instr], ord.key("C14.R1:census-writer:"+fnName(op.fn)), r1, p.InstrPos(op.instr),
 			"write to the census that is not the +1 after a table insert / the -1 or removal after a table delete of the same key")
-		if matched[op.instr] {
+		if matched[op.instr] && viaHelper[op.instr] {
+			// inside an adjust helper: every call of the helper is one that was
+			// matched to a table write
+			all := !x.la.escaped[op.fn] && len(x.la.callers[op.fn]) > 0
+			for _, cs := range x.la.callers[op.fn] {
+				if !helperCalls[op.fn][cs.(ssa.Instruction)] {
+					all = false
+				}
+			}
+			c.Req(all, ord.key("C14.R1:census-writer:"+fnName(op.fn)+":after-table-write"), r1, p.InstrPos(op.instr),
+				"the census helper is also called on a path that did not change the table for the same key")
+		} else if matched[op.instr] {
 			// and it cannot be reached without the table write it belongs to
 			free := false
 			stopW := func(in ssa.Instruction) bool { return isTableWrite("update")(in) || isTableWrite("delete")(in) }
@@ -906,6 +1131,21 @@ func (x *c14ctx) r1(tab, cen *c14mapUse) {
 
 // ---------------------------------------------------------------------------
 // R2 lock discipline
+
+// c14unlocksIn: fn itself releases mutex field mu somewhere.
+func c14unlocksIn(fn *ssa.Function, mu *types.Var) bool {
+	found := false
+	for _, f := range withAnon(fn) {
+		allInstrs(f, func(in ssa.Instruction) {
+			if ci, ok := in.(ssa.CallInstruction); ok {
+				if m, op := lockOp(ci); m == mu && (op == "Unlock" || op == "RUnlock") {
+					found = true
+				}
+			}
+		})
+	}
+	return found
+}
 
 func c14freshRoot(addr ssa.Value, fn *ssa.Function) bool {
 	al, ok := accessPath(addr).Root.(*ssa.Alloc)
@@ -970,7 +1210,12 @@ func (x *c14ctx) r2(tab, cen *c14mapUse) {
 					if _, dbg := r.(*ssa.DebugRef); dbg {
 						continue
 					}
-					if !x.la.Holds(r, x.fReadMu, lockW) {
+					// inside a helper entered from a call site that holds the read
+					// mutex (checked on the call instruction itself) the lock stays
+					// held unless the helper releases it: the helper may have other
+					// callers that pass other buffers without the lock
+					inHeldHelper := depth > 0 && !c14unlocksIn(r.Parent(), x.fReadMu)
+					if !inHeldHelper && !x.la.Holds(r, x.fReadMu, lockW) {
 						c.Bad(ord.key("C14.R2:readbuf:use:"+fnName(r.Parent())), r2, p.InstrPos(r),
 							"a slice of the shared read buffer is used after/without "+x.fReadMu.Name()+" (a concurrent ReadFrom overwrites the packet being parsed)")
 						continue
@@ -1079,7 +1324,7 @@ func (x *c14ctx) isDrop(in ssa.Instruction, tab *c14mapUse, keyOK func(ssa.Value
 // the path (K1's phi-of-constants correlation); each CFG edge at most twice.
 
 type c14pathState struct {
-	env      map[*ssa.Phi]int8 // 1 true, 2 false
+	env      map[*ssa.Phi]int8 // 1 true, 2 false, 3 nil, 4 non-nil
 	sawBody  bool
 	emptyOK  bool
 	edgeSeen map[[2]int]int
@@ -1112,6 +1357,14 @@ func (x *c14ctx) evictorVerdict(fn *ssa.Function, tab *c14mapUse) (reason string
 	isLenTab := func(v ssa.Value) bool {
 		call, ok := c14strip(v).(*ssa.Call)
 		return ok && isBuiltinCall(call, "len") && tab.is(call.Call.Args[0])
+	}
+	// every value ever stored in the table is a fresh allocation: the range
+	// value of an iteration over the table is a non-nil pointer
+	entriesNonNil := true
+	for _, op := range tab.writes("update") {
+		if c14entryAlloc(op.instr.(*ssa.MapUpdate).Value) == nil {
+			entriesNonNil = false
+		}
 	}
 	steps := 0
 	bad := ""
@@ -1147,6 +1400,10 @@ func (x *c14ctx) evictorVerdict(fn *ssa.Function, tab *c14mapUse) (reason string
 					newEnv[ph] = 1
 				} else if isConstBool(e, false) {
 					newEnv[ph] = 2
+				} else if isNilConst(e) {
+					newEnv[ph] = 3
+				} else if _, isAlloc := c14strip(e).(*ssa.Alloc); isAlloc || (entriesNonNil && c14rangeOf(e, 2, tab) != nil) {
+					newEnv[ph] = 4 // an `oldest` pointer tracked instead of a found flag
 				} else if src, ok := e.(*ssa.Phi); ok && st.env[src] != 0 {
 					newEnv[ph] = st.env[src]
 				} else {
@@ -1178,9 +1435,16 @@ func (x *c14ctx) evictorVerdict(fn *ssa.Function, tab *c14mapUse) (reason string
 				ns = st.clone()
 			}
 			if cond, pol, ok := edgeFact(b, i); ok {
-				if ph, isPhi := cond.(*ssa.Phi); isPhi && st.env[ph] != 0 {
+				if ph, isPhi := cond.(*ssa.Phi); isPhi && (st.env[ph] == 1 || st.env[ph] == 2) {
 					if (st.env[ph] == 1) != pol {
 						continue // infeasible
+					}
+				}
+				if xv, isNil, okN := nilTest(cond, pol); okN {
+					if ph, isPhi := c14strip(xv).(*ssa.Phi); isPhi && (st.env[ph] == 3 || st.env[ph] == 4) {
+						if (st.env[ph] == 3) != isNil {
+							continue // infeasible
+						}
 					}
 				}
 				if nx := c14rangeOf(cond, 0, tab); nx != nil {
@@ -1271,8 +1535,7 @@ func (x *c14ctx) r3(tab, cen *c14mapUse) {
 		n++
 		base := ord.key("C14.R3:insert:" + fnName(fn))
 		bestPer := int64(-1)
-		perSrc := func(key ssa.Value, at ssa.Instruction) EdgePred {
-			addr := c14canonP(key, []*types.Var{x.fKeyAddr})
+		perSrcCore := func(addr c14ref, region func(ssa.Instruction) bool) EdgePred {
 			return func(cond ssa.Value, pol bool) bool {
 				var hit *ssa.Lookup
 				b, ok := c14strictUpper(cond, pol, func(v ssa.Value) bool {
@@ -1289,7 +1552,35 @@ func (x *c14ctx) r3(tab, cen *c14mapUse) {
 				if b > bestPer {
 					bestPer = b
 				}
-				return b <= perSrcMax && x.la.sameRegion(hit, at, x.fMu, lockW)
+				return b <= perSrcMax && region(hit)
+			}
+		}
+		perSrc := func(key ssa.Value, at ssa.Instruction) EdgePred {
+			addr := c14canonP(key, []*types.Var{x.fKeyAddr})
+			keyRef := c14canon(key)
+			direct := perSrcCore(addr, func(in ssa.Instruction) bool { return x.la.sameRegion(in, at, x.fMu, lockW) })
+			return func(cond ssa.Value, pol bool) bool {
+				if direct(cond, pol) {
+					return true
+				}
+				// predicate helper: g.sourceFull(key.addr) / g.overLimit(key)
+				return c14predHelper(cond, pol, func(H *ssa.Function, call *ssa.Call) EdgePred {
+					if !x.la.sameRegion(call, at, x.fMu, lockW) {
+						return nil
+					}
+					for i, a := range call.Call.Args {
+						if i >= len(H.Params) {
+							break
+						}
+						switch c14canon(a) {
+						case addr:
+							return perSrcCore(c14canon(H.Params[i]), func(ssa.Instruction) bool { return true })
+						case keyRef:
+							return perSrcCore(c14canonP(H.Params[i], []*types.Var{x.fKeyAddr}), func(ssa.Instruction) bool { return true })
+						}
+					}
+					return nil
+				})
 			}
 		}
 		okPer := x.liftKeyGuard(I, I.Key, perSrc, 0)
@@ -1305,15 +1596,29 @@ func (x *c14ctx) r3(tab, cen *c14mapUse) {
 		evictWhy := ""
 		var capOK func(at ssa.Instruction, depth int) bool
 		capOK = func(at ssa.Instruction, depth int) bool {
-			lenLT := func(cond ssa.Value, pol bool) bool {
-				b, ok := c14strictUpper(cond, pol, func(v ssa.Value) bool {
-					call, ok := c14strip(v).(*ssa.Call)
-					return ok && isBuiltinCall(call, "len") && tab.is(call.Call.Args[0]) && x.la.sameRegion(call, at, x.fMu, lockW)
-				})
-				if ok && b > bestG {
-					bestG = b
+			lenLTCore := func(region func(ssa.Instruction) bool) EdgePred {
+				return func(cond ssa.Value, pol bool) bool {
+					b, ok := c14strictUpper(cond, pol, func(v ssa.Value) bool {
+						call, ok := c14strip(v).(*ssa.Call)
+						return ok && isBuiltinCall(call, "len") && tab.is(call.Call.Args[0]) && region(call)
+					})
+					if ok && b > bestG {
+						bestG = b
+					}
+					return ok && b <= globalMax
 				}
-				return ok && b <= globalMax
+			}
+			lenLT := func(cond ssa.Value, pol bool) bool {
+				if lenLTCore(func(in ssa.Instruction) bool { return x.la.sameRegion(in, at, x.fMu, lockW) })(cond, pol) {
+					return true
+				}
+				// predicate helper: g.tableFull()
+				return c14predHelper(cond, pol, func(H *ssa.Function, call *ssa.Call) EdgePred {
+					if !x.la.sameRegion(call, at, x.fMu, lockW) {
+						return nil
+					}
+					return lenLTCore(func(ssa.Instruction) bool { return true })
+				})
 			}
 			isEvict := func(in ssa.Instruction) bool {
 				call, ok := in.(*ssa.Call)
@@ -1420,6 +1725,50 @@ func c14entryAlloc(v ssa.Value) *ssa.Alloc {
 	return nil
 }
 
+// c14predHelper: cond is a call of a one-result boolean helper H and on every
+// return of H the result being pol implies an edge / value accepted by the
+// predicate mk builds for H (arguments mapped to H's parameters); mk returns
+// nil when the call cannot be mapped.
+func c14predHelper(cond ssa.Value, pol bool, mk func(H *ssa.Function, call *ssa.Call) EdgePred) bool {
+	call, ok := c14strip(cond).(*ssa.Call)
+	if !ok {
+		return false
+	}
+	H := staticCallee(call)
+	if H == nil || len(H.Blocks) == 0 || H.Signature.Results().Len() != 1 {
+		return false
+	}
+	inner := mk(H, call)
+	if inner == nil {
+		return false
+	}
+	okAll, n := true, 0
+	allInstrs(H, func(in ssa.Instruction) {
+		r, isRet := in.(*ssa.Return)
+		if !isRet {
+			return
+		}
+		res := retResults(r)
+		if len(res) != 1 {
+			okAll = false
+			return
+		}
+		n++
+		switch {
+		case isConstBool(res[0], !pol):
+		case isConstBool(res[0], pol):
+			if !guardedBy(r, inner) {
+				okAll = false
+			}
+		default:
+			if v, vp := stripNot(res[0], pol); !inner(v, vp) {
+				okAll = false
+			}
+		}
+	})
+	return okAll && n > 0
+}
+
 func (x *c14ctx) r4(tab *c14mapUse) {
 	c, p := x.c, x.p
 	const r4 = "C14.R4 new entries expire at time.Now()+TTL (TTL > 0, never extended); the constructor starts the GC goroutine; it leaves on the close channel, sweeps on every tick of a period in (0, TTL] and keeps running; the sweep drops every entry on the now.After(deadline) edge and visits the whole table; Close closes the close channel"
@@ -1523,20 +1872,52 @@ func (x *c14ctx) r4(tab *c14mapUse) {
 			root, ok := c14fieldLoadOf(v, x.fDeadline)
 			return ok && c14rangeOf(root, 2, tab) == nx
 		}
+		// notExpired: the edge says now.After(deadline) is false
+		notExpired := func(isNow, isDeadline func(ssa.Value) bool) EdgePred {
+			return func(cond ssa.Value, pol bool) bool {
+				if pol {
+					return false
+				}
+				if call := c14timeCall(cond, "After"); call != nil && len(call.Call.Args) == 2 {
+					return isNow(call.Call.Args[0]) && isDeadline(call.Call.Args[1])
+				}
+				if call := c14timeCall(cond, "Before"); call != nil && len(call.Call.Args) == 2 {
+					return isDeadline(call.Call.Args[0]) && isNow(call.Call.Args[1])
+				}
+				return false
+			}
+		}
+		direct := notExpired(func(v ssa.Value) bool { return nowOK(v, S) }, isDl)
 		blocked := func(cond ssa.Value, pol bool) bool {
 			if c14rangeOf(cond, 0, tab) == nx {
 				return !pol // loop exit
 			}
-			if pol {
-				return false
+			if direct(cond, pol) {
+				return true
 			}
-			if call := c14timeCall(cond, "After"); call != nil && len(call.Call.Args) == 2 {
-				return nowOK(call.Call.Args[0], S) && isDl(call.Call.Args[1])
-			}
-			if call := c14timeCall(cond, "Before"); call != nil && len(call.Call.Args) == 2 {
-				return isDl(call.Call.Args[0]) && nowOK(call.Call.Args[1], S)
-			}
-			return false
+			// predicate helper: e.expired(now) / e.alive(now) / expired(e, now)
+			return c14predHelper(cond, pol, func(H *ssa.Function, call *ssa.Call) EdgePred {
+				var nowP, entP *ssa.Parameter
+				for i, a := range call.Call.Args {
+					if i >= len(H.Params) {
+						break
+					}
+					if c14rangeOf(c14canon(a).root, 2, tab) == nx && c14canon(a).path == "" {
+						entP = H.Params[i]
+					} else if nowOK(a, S) {
+						nowP = H.Params[i]
+					}
+				}
+				if entP == nil {
+					return nil
+				}
+				return notExpired(func(v ssa.Value) bool {
+					return c14timeCall(v, "Now") != nil || (nowP != nil && c14strip(resolve(v)) == ssa.Value(nowP))
+				}, func(v ssa.Value) bool {
+					root, ok := c14fieldLoadOf(v, x.fDeadline)
+					return ok && root == ssa.Value(entP)
+				})
+			})
 		}
 		isMyDrop := func(in ssa.Instruction) bool {
 			return x.isDrop(in, tab, func(k ssa.Value) bool { return c14rangeOf(c14canon(k).root, 1, tab) == nx && c14canon(k).path == "" })
@@ -1583,6 +1964,7 @@ func (x *c14ctx) r4(tab *c14mapUse) {
 
 	// ---- GC goroutine started by the constructor
 	nCtor := 0
+	anyStarted := false
 	for _, fn := range x.fns {
 		var obj *ssa.Alloc
 		allInstrs(fn, func(in ssa.Instruction) {
@@ -1617,7 +1999,7 @@ func (x *c14ctx) r4(tab *c14mapUse) {
 		for _, L := range loops {
 			ok, w := x.gcLoopVerdict(L, tab, ttl, sweeperVerdict)
 			if ok {
-				started = true
+				started, anyStarted = true, true
 				c.Saw(fnName(L))
 			} else {
 				why = fnName(L) + ": " + w
@@ -1640,7 +2022,9 @@ func (x *c14ctx) r4(tab *c14mapUse) {
 		ok, why := sweeperVerdict(fn)
 		c.Req(ok, "C14.R4:sweep:"+fnName(fn), r4, p.Pos(fn.Pos()), why+" (an incomplete message outlives its TTL)")
 	}
-	c.Floor("C14.R4:sweep", nSw, 1)
+	if anyStarted {
+		c.Floor("C14.R4:sweep", nSw, 1)
+	}
 
 	// ---- Close stops it
 	closeFn := p.MethodOf(types.NewPointer(x.connT), "Close")
@@ -1653,24 +2037,103 @@ func (x *c14ctx) r4(tab *c14mapUse) {
 		call, ok := in.(*ssa.Call)
 		return ok && isBuiltinCall(call, "close") && isLoadOfField(call.Call.Args[0], x.fCloseCh)
 	}
-	closer := func(in ssa.Instruction) bool {
-		if isCloseCh(in) {
-			return true
-		}
-		call, ok := in.(*ssa.Call)
-		if !ok || !calleeIs(call, "sync", "(*Once).Do") || len(call.Call.Args) != 2 {
+	// closes: every path through fn closes the channel, directly or through a
+	// helper of the obfs package (method value / bound wrapper passed to Once.Do)
+	var closes func(fn *ssa.Function, depth int) bool
+	closes = func(fn *ssa.Function, depth int) bool {
+		if fn == nil || len(fn.Blocks) == 0 || depth > 2 {
 			return false
 		}
-		mc, ok := call.Call.Args[1].(*ssa.MakeClosure)
-		if !ok {
-			return false
+		hit := func(in ssa.Instruction) bool {
+			if isCloseCh(in) {
+				return true
+			}
+			call, ok := in.(*ssa.Call)
+			if !ok {
+				return false
+			}
+			callee := staticCallee(call)
+			if callee == nil {
+				return false
+			}
+			if pk := fnPkg(callee); pk == nil || pk.Pkg.Path() != pObfs {
+				return false
+			}
+			return closes(callee, depth+1)
 		}
-		cl := mc.Fn.(*ssa.Function)
-		return len(callsIn(cl, func(ci ssa.CallInstruction) bool { return isCloseCh(ci.(ssa.Instruction)) })) > 0 &&
-			len(exitsReachableAvoiding(cl, nil, isCloseCh)) == 0
+		any := false
+		allInstrs(fn, func(in ssa.Instruction) {
+			if hit(in) {
+				any = true
+			}
+		})
+		return any && len(exitsReachableAvoiding(fn, nil, hit)) == 0
 	}
+	// closer: the instruction closes the channel: directly, through Once.Do of a
+	// closing function, or through a helper of the package that does so on
+	// every path (stopGC(), shutdown() ...)
+	var closerAt func(depth int) func(in ssa.Instruction) bool
+	closerAt = func(depth int) func(in ssa.Instruction) bool {
+		return func(in ssa.Instruction) bool {
+			if isCloseCh(in) {
+				return true
+			}
+			call, ok := in.(*ssa.Call)
+			if !ok {
+				return false
+			}
+			if calleeIs(call, "sync", "(*Once).Do") {
+				if len(call.Call.Args) != 2 {
+					return false
+				}
+				mc, ok := call.Call.Args[1].(*ssa.MakeClosure)
+				return ok && closes(mc.Fn.(*ssa.Function), 0)
+			}
+			callee := staticCallee(call)
+			if callee == nil || depth >= 2 || len(callee.Blocks) == 0 || callee == closeFn {
+				return false
+			}
+			if pk := fnPkg(callee); pk == nil || pk.Pkg.Path() != pObfs {
+				return false
+			}
+			return len(exitsReachableAvoiding(callee, nil, closerAt(depth+1))) == 0
+		}
+	}
+	closer := closerAt(0)
 	c.Req(len(exitsReachableAvoiding(closeFn, nil, closer)) == 0, "C14.R4:close-stops-gc", r4, p.Pos(closeFn.Pos()),
 		"a path through Close does not close "+x.fCloseCh.Name()+" (the GC goroutine, its ticker and the whole reassembly table of a closed connection are kept forever)")
+}
+
+// constArg: v is an integer constant, or a parameter that receives the same
+// constant at every call site (gcEvery(ttl / 2)).
+func (x *c14ctx) constArg(v ssa.Value, depth int) (int64, bool) {
+	v = c14strip(resolve(v))
+	if k, ok := constInt(v); ok {
+		return k, true
+	}
+	prm, ok := v.(*ssa.Parameter)
+	if !ok || depth >= 2 || prm.Parent() == nil || x.la.escaped[prm.Parent()] || len(x.la.callers[prm.Parent()]) == 0 {
+		return 0, false
+	}
+	idx := -1
+	for i, q := range prm.Parent().Params {
+		if q == prm {
+			idx = i
+		}
+	}
+	var val int64
+	for n, cs := range x.la.callers[prm.Parent()] {
+		args := cs.Common().Args
+		if idx < 0 || idx >= len(args) {
+			return 0, false
+		}
+		k, ok := x.constArg(args[idx], depth+1)
+		if !ok || (n > 0 && k != val) {
+			return 0, false
+		}
+		val = k
+	}
+	return val, true
 }
 
 // gcLoopVerdict checks the shape of the maintenance goroutine.
@@ -1682,6 +2145,23 @@ func (x *c14ctx) gcLoopVerdict(L *ssa.Function, tab *c14mapUse, ttl int64, sweep
 		}
 	})
 	if sel == nil {
+		// `go func() { g.gcLoop() }()` or a thin wrapper: follow a single call into the package
+		var inner []*ssa.Function
+		allInstrs(L, func(in ssa.Instruction) {
+			if call, ok := in.(*ssa.Call); ok {
+				if cal := staticCallee(call); cal != nil && cal != L && len(cal.Blocks) > 0 {
+					if pk := fnPkg(cal); pk != nil && pk.Pkg.Path() == pObfs {
+						inner = append(inner, cal)
+					}
+				}
+			}
+		})
+		if len(inner) == 1 && x.deleterMemo[L] != -3 {
+			x.deleterMemo[L] = -3 // recursion guard
+			ok, why := x.gcLoopVerdict(inner[0], tab, ttl, sweeperVerdict)
+			delete(x.deleterMemo, L)
+			return ok, why
+		}
 		return false, "?no blocking select (loop shape not recognised)"
 	}
 	ci, ti := -1, -1
@@ -1706,7 +2186,7 @@ func (x *c14ctx) gcLoopVerdict(L *ssa.Function, tab *c14mapUse, ttl int64, sweep
 			mk = k
 		}
 		if mk != nil && len(mk.Call.Args) >= 1 {
-			if d, ok := constInt(mk.Call.Args[0]); ok {
+			if d, ok := x.constArg(mk.Call.Args[0], 0); ok {
 				ti, period = i, d
 			}
 		}
@@ -1837,7 +2317,7 @@ func c14freshSlice(v ssa.Value, seen map[ssa.Value]bool) bool {
 		if isBuiltinCall(w, "append") {
 			return isNilConst(w.Call.Args[0]) || c14freshSlice(w.Call.Args[0], seen)
 		}
-		if calleeIs(w, "bytes", "Clone") || calleeIs(w, "slices", "Clone") {
+		if calleeIs(w, "bytes", "Clone") || calleeIs(w, "slices", "Clone") || calleeIs(w, "bytes", "Join") || calleeIs(w, "slices", "Concat") {
 			return true
 		}
 		// helper returning a buffer it allocated itself
@@ -2039,93 +2519,134 @@ func (x *c14ctx) r5(tab *c14mapUse) {
 			}
 		}
 
-		// ---- completion
-		isPostReceived := func(v ssa.Value) bool {
-			v = c14strip(v)
-			if ofEntry(v, x.fReceived) {
-				ld := v.(ssa.Instruction)
+		// ---- completion: decided in the function that hands the packet up (the
+		// one with a []byte result); when the store sits in a helper (entry
+		// method put/add ...) the analysis moves to the helper's call sites
+		var completion func(fn *ssa.Function, at ssa.Instruction, isEntry func(ssa.Value) bool, incs []ssa.Instruction, depth int) (int, bool)
+		completion = func(fn *ssa.Function, at ssa.Instruction, isEntry func(ssa.Value) bool, incs []ssa.Instruction, depth int) (int, bool) {
+			handsUp := false
+			for i := 0; i < fn.Signature.Results().Len(); i++ {
+				if c14isByteSlice(fn.Signature.Results().At(i).Type()) {
+					handsUp = true
+				}
+			}
+			if !handsUp {
+				pidx := -1
+				for i, prm := range fn.Params {
+					if isEntry(prm) {
+						pidx = i
+					}
+				}
+				if depth >= 2 || pidx < 0 || x.la.escaped[fn] || len(x.la.callers[fn]) == 0 {
+					return 0, false
+				}
+				n, followed := 0, true
+				for _, cs := range x.la.callers[fn] {
+					args := cs.Common().Args
+					if pidx >= len(args) {
+						followed = false
+						continue
+					}
+					r := c14canon(args[pidx]).root
+					k, f := completion(cs.Parent(), cs.(ssa.Instruction), func(v ssa.Value) bool { return v == r }, nil, depth+1)
+					n += k
+					followed = followed && f
+				}
+				return n, followed
+			}
+			c.Saw(fnName(fn))
+			ofE := func(v ssa.Value, f *types.Var) bool {
+				r, ok := c14fieldLoadOf(v, f)
+				return ok && isEntry(r)
+			}
+			// postAt: the instruction sees the counter after this store's increment
+			postAt := func(in ssa.Instruction) bool {
+				if len(incs) == 0 {
+					return in.Parent() == fn && dominates(at, in)
+				}
 				for _, inc := range incs {
-					if dominates(inc, ld) {
+					if dominates(inc, in) {
 						return true
 					}
 				}
 				return false
 			}
-			for _, inc := range incs {
-				if c14strip(inc.(*ssa.Store).Val) == v {
-					return true
+			isPostReceived := func(v ssa.Value) bool {
+				v = c14strip(v)
+				if ofE(v, x.fReceived) {
+					return postAt(v.(ssa.Instruction))
 				}
-			}
-			return false
-		}
-		isTotal := func(v ssa.Value) bool {
-			v = c14strip(v)
-			if ofEntry(v, x.fTotal) {
-				return true
-			}
-			la := c14lenArg(v)
-			return la != nil && ofEntry(la, x.fChunks)
-		}
-		complete := func(cond ssa.Value, pol bool) bool {
-			a, b, op, ok := c14rel(cond, pol)
-			if !ok {
+				for _, inc := range incs {
+					if c14strip(inc.(*ssa.Store).Val) == v {
+						return true
+					}
+				}
 				return false
 			}
-			if op == token.LEQ {
-				a, b, op = b, a, token.GEQ
+			complete := func(cond ssa.Value, pol bool) bool {
+				return x.completeEdge(cond, pol, isEntry, isPostReceived, postAt, 0)
 			}
-			return (op == token.GEQ || op == token.EQL) && ((isPostReceived(a) && isTotal(b)) || (op == token.EQL && isPostReceived(b) && isTotal(a)))
-		}
-		keyRefs := map[c14ref]bool{}
-		for _, op := range tab.ops {
-			if op.fn != fn {
-				continue
-			}
-			switch y := op.instr.(type) {
-			case *ssa.Lookup:
-				keyRefs[c14canon(y.Index)] = true
-			case *ssa.MapUpdate:
-				keyRefs[c14canon(y.Key)] = true
-			}
-		}
-		isDrop := func(in ssa.Instruction) bool {
-			return x.isDrop(in, tab, func(k ssa.Value) bool { return keyRefs[c14canon(k)] })
-		}
-		undropped := map[ssa.Instruction]bool{}
-		for _, r := range exitsReachableAvoiding(fn, St, isDrop) {
-			undropped[r] = true
-		}
-		nDone := 0
-		for _, in := range reachFrom(fn, St, nil, nil) {
-			r, ok := in.(*ssa.Return)
-			if !ok {
-				continue
-			}
-			res := retResults(r)
-			done := false
-			for _, v := range res {
-				if isConstBool(v, true) {
-					done = true
+			keyRefs := map[c14ref]bool{}
+			for _, op := range tab.ops {
+				if op.fn != fn {
+					continue
+				}
+				switch y := op.instr.(type) {
+				case *ssa.Lookup:
+					keyRefs[c14canon(y.Index)] = true
+				case *ssa.MapUpdate:
+					keyRefs[c14canon(y.Key)] = true
 				}
 			}
-			if !done {
-				continue
+			isDrop := func(in ssa.Instruction) bool {
+				return x.isDrop(in, tab, func(k ssa.Value) bool { return keyRefs[c14canon(k)] })
 			}
-			nDone++
-			k := ord.key(base + ":complete")
-			c.Req(guardedBy(r, complete), k+":guard", r5, p.InstrPos(r),
-				"the packet is handed up without the `received >= total` edge on the updated counter of this entry (assembled with holes, or one chunk early)")
-			c.Req(!undropped[r], k+":drops-entry", r5, p.InstrPos(r),
-				"the completed message's entry is not dropped (it pins a table slot and the source's count until the TTL: the 9th handshake packet within 8 s is refused)")
-			freshOut := false
-			for _, v := range res {
-				if c14isByteSlice(v.Type()) {
-					freshOut = c14freshSlice(v, map[ssa.Value]bool{})
+			undropped := map[ssa.Instruction]bool{}
+			for _, r := range exitsReachableAvoiding(fn, at, isDrop) {
+				undropped[r] = true
+			}
+			cbase := base
+			if fn != St.Parent() {
+				cbase = ord.key(base + ":via:" + fnName(fn))
+			}
+			nDone := 0
+			for _, in := range reachFrom(fn, at, nil, nil) {
+				r, ok := in.(*ssa.Return)
+				if !ok {
+					continue
 				}
+				res := retResults(r)
+				done := false
+				for _, v := range res {
+					if isConstBool(v, true) {
+						done = true
+					}
+				}
+				if !done {
+					continue
+				}
+				nDone++
+				k := ord.key(cbase + ":complete")
+				c.Req(guardedBy(r, complete), k+":guard", r5, p.InstrPos(r),
+					"the packet is handed up without the `received >= total` edge on the updated counter of this entry (assembled with holes, or one chunk early)")
+				c.Req(!undropped[r], k+":drops-entry", r5, p.InstrPos(r),
+					"the completed message's entry is not dropped (it pins a table slot and the source's count until the TTL: the 9th handshake packet within 8 s is refused)")
+				freshOut := false
+				for _, v := range res {
+					if c14isByteSlice(v.Type()) {
+						freshOut = c14freshSlice(v, map[ssa.Value]bool{})
+					}
+				}
+				c.Req(freshOut, k+":fresh-out", r5, p.InstrPos(r), "the assembled packet is not a freshly allocated buffer")
 			}
-			c.Req(freshOut, k+":fresh-out", r5, p.InstrPos(r), "the assembled packet is not a freshly allocated buffer")
+			return nDone, true
 		}
-		c.Floor(base+":complete-return", nDone, 1)
+		nDone, followed := completion(fn, St, func(v ssa.Value) bool { return v == eRoot }, incs, 0)
+		if !followed && nDone == 0 {
+			c.Undecided(base+":complete-return", r5, p.InstrPos(St), "the slot store sits in a helper whose callers cannot be followed to the return that hands the packet up")
+		} else {
+			c.Floor(base+":complete-return", nDone, 1)
+		}
 	}
 	// no other writer of received
 	for _, fr := range fieldRefs(x.fns, x.fReceived) {
@@ -2148,6 +2669,80 @@ func (x *c14ctx) r5(tab *c14mapUse) {
 // totalAgreement: every source of the entry pointer is either the new entry
 // (slots = declared total of this frame) or an existing one reached over the
 // `entry.total == declared total` edge; index and total come from one header.
+// completeEdge: on the edge `received >= total` (or == ) is known for the entry
+// accepted by isEntry, with received read after the increment; the test may sit
+// in a predicate helper (e.complete()) called with the entry after the increment.
+func (x *c14ctx) completeEdge(cond ssa.Value, pol bool, isEntry func(ssa.Value) bool, isPostReceived func(ssa.Value) bool, postAt func(ssa.Instruction) bool, depth int) bool {
+	isTotal := func(v ssa.Value) bool {
+		v = c14strip(v)
+		if r, ok := c14fieldLoadOf(v, x.fTotal); ok && isEntry(r) {
+			return true
+		}
+		if la := c14lenArg(v); la != nil {
+			r, ok := c14fieldLoadOf(la, x.fChunks)
+			return ok && isEntry(r)
+		}
+		return false
+	}
+	if a, b, op, ok := c14rel(cond, pol); ok {
+		if op == token.LEQ {
+			a, b, op = b, a, token.GEQ
+		}
+		if (op == token.GEQ || op == token.EQL) && ((isPostReceived(a) && isTotal(b)) || (op == token.EQL && isPostReceived(b) && isTotal(a))) {
+			return true
+		}
+	}
+	call, isCall := c14strip(cond).(*ssa.Call)
+	if !isCall || depth >= 2 || !postAt(call) {
+		return false
+	}
+	H := staticCallee(call)
+	if H == nil || len(H.Blocks) == 0 || H.Signature.Results().Len() != 1 {
+		return false
+	}
+	var prm *ssa.Parameter
+	for i, a := range call.Call.Args {
+		if i < len(H.Params) && isEntry(c14canon(a).root) {
+			prm = H.Params[i]
+		}
+	}
+	if prm == nil {
+		return false
+	}
+	isE2 := func(v ssa.Value) bool { return v == ssa.Value(prm) }
+	isPost2 := func(v ssa.Value) bool {
+		r, ok := c14fieldLoadOf(c14strip(v), x.fReceived)
+		return ok && r == ssa.Value(prm)
+	}
+	post2 := func(ssa.Instruction) bool { return true }
+	okAll, n := true, 0
+	allInstrs(H, func(in ssa.Instruction) {
+		r, isRet := in.(*ssa.Return)
+		if !isRet {
+			return
+		}
+		res := retResults(r)
+		if len(res) != 1 {
+			okAll = false
+			return
+		}
+		n++
+		switch {
+		case isConstBool(res[0], !pol):
+		case isConstBool(res[0], pol):
+			if !guardedBy(r, func(c ssa.Value, pp bool) bool { return x.completeEdge(c, pp, isE2, isPost2, post2, depth+1) }) {
+				okAll = false
+			}
+		default:
+			v, vp := stripNot(res[0], pol)
+			if !x.completeEdge(v, vp, isE2, isPost2, post2, depth+1) {
+				okAll = false
+			}
+		}
+	})
+	return okAll && n > 0
+}
+
 func (x *c14ctx) totalAgreement(cs c14chunkStore, tab *c14mapUse) bool {
 	type src struct {
 		v        ssa.Value
@@ -2457,6 +3052,18 @@ func (a c14lin) String() string {
 // c14topBit: the edge decides bit 0x80 of byte 0 of a buffer accepted by isBuf;
 // returns whether the bit is set on the edge.
 func c14topBit(cond ssa.Value, pol bool, isBuf func(ssa.Value) bool) (set bool, ok bool) {
+	return c14topBitD(cond, pol, isBuf, 0)
+}
+
+func c14topBitD(cond ssa.Value, pol bool, isBuf0 func(ssa.Value) bool, depth int) (set bool, ok bool) {
+	// byte 0 of buf[:n] is byte 0 of buf
+	isBuf := func(v ssa.Value) bool {
+		if isBuf0(v) {
+			return true
+		}
+		sl, ok := c14strip(v).(*ssa.Slice)
+		return ok && sl.Low == nil && isBuf0(sl.X)
+	}
 	isByte0 := func(v ssa.Value) bool {
 		u, ok := c14strip(v).(*ssa.UnOp)
 		if !ok || u.Op != token.MUL {
@@ -2488,57 +3095,814 @@ func c14topBit(cond ssa.Value, pol bool, isBuf func(ssa.Value) bool) (set bool, 
 			return false, true
 		}
 	}
+	// predicate helper: isLongHeader(buf) / isShortHeader(buf) whose result
+	// `pol` implies the bit set (or clear) on every return
+	if call, isCall := c14strip(cond).(*ssa.Call); isCall && depth < 2 {
+		F := staticCallee(call)
+		if F == nil || len(F.Blocks) == 0 || F.Signature.Results().Len() != 1 {
+			return false, false
+		}
+		var prm *ssa.Parameter
+		for i, a := range call.Call.Args {
+			if i < len(F.Params) && isBuf(a) {
+				prm = F.Params[i]
+			}
+		}
+		if prm == nil {
+			return false, false
+		}
+		isP := func(v ssa.Value) bool { return c14strip(resolve(v)) == ssa.Value(prm) }
+		implies := func(wantSet bool) bool {
+			okAll, n := true, 0
+			allInstrs(F, func(in ssa.Instruction) {
+				r, isRet := in.(*ssa.Return)
+				if !isRet {
+					return
+				}
+				res := retResults(r)
+				if len(res) != 1 {
+					okAll = false
+					return
+				}
+				n++
+				switch {
+				case isConstBool(res[0], !pol):
+				case isConstBool(res[0], pol):
+					g := func(c ssa.Value, pp bool) bool {
+						s, ok := c14topBitD(c, pp, isP, depth+1)
+						return ok && s == wantSet
+					}
+					if !guardedBy(r, g) {
+						okAll = false
+					}
+				default:
+					v, vp := stripNot(res[0], pol)
+					if s, ok := c14topBitD(v, vp, isP, depth+1); !ok || s != wantSet {
+						okAll = false
+					}
+				}
+			})
+			return okAll && n > 0
+		}
+		if implies(true) {
+			return true, true
+		}
+		if implies(false) {
+			return false, true
+		}
+	}
 	return false, false
 }
 
-// c14totalRange: the interval of header.total accepted on the way to the
-// success return (error result nil) of a frame encoder / decoder.
-func (x *c14ctx) totalRange(fn *ssa.Function, fTotal *types.Var) (lo, hi int64, ok bool) {
-	var succ []*ssa.Return
-	allInstrs(fn, func(in ssa.Instruction) {
-		r, isRet := in.(*ssa.Return)
-		if !isRet {
+// totalAccepted: for every value t of the header's declared total, whether the
+// success return (last result nil) of a frame encoder / decoder is reachable
+// when every comparison of the total with a constant is decided for t and every
+// other condition may go either way.  Looks through boolean / error-returning
+// validation helpers, phi conditions (`a && b` used as a value), switch chains
+// and inverted tests.  ok is false when no value or every value is accepted
+// (no range can be derived).
+func (x *c14ctx) totalAccepted(fn *ssa.Function, fTotal *types.Var) (acc [256]bool, ok bool) {
+	e := &c14totEval{x: x, fTotal: fTotal, totVals: map[ssa.Value]bool{}}
+	for _, fr := range fieldRefs(x.fns, fTotal) {
+		if fr.Kind == "store" && fr.Val != nil {
+			if _, isC := fr.Val.(*ssa.Const); !isC {
+				e.totVals[c14strip(fr.Val)] = true
+			}
+		}
+	}
+	n := 0
+	for t := 0; t < len(acc); t++ {
+		e.t = int64(t)
+		acc[t] = e.outcome(fn, -1, 0)&1 != 0
+		if acc[t] {
+			n++
+		}
+	}
+	return acc, n > 0 && n < len(acc)
+}
+
+// c14totEval: outcome masks have bit 1 = "true / nil possible", bit 2 =
+// "false / non-nil possible".
+type c14totEval struct {
+	x       *c14ctx
+	fTotal  *types.Var
+	totVals map[ssa.Value]bool
+	t       int64
+}
+
+func c14swapMask(m uint8) uint8 { return (m&1)<<1 | (m&2)>>1 }
+
+func (e *c14totEval) intOf(v ssa.Value) (int64, bool) {
+	v = c14strip(v)
+	if k, ok := constInt(v); ok {
+		return k, true
+	}
+	if e.totVals[v] {
+		return e.t, true
+	}
+	if _, ok := c14fieldLoadOf(v, e.fTotal); ok {
+		return e.t, true
+	}
+	return 0, false
+}
+
+func (e *c14totEval) calleeOutcome(v ssa.Value, depth int) uint8 {
+	idx := 0
+	v = c14strip(v)
+	if ex, ok := v.(*ssa.Extract); ok {
+		idx, v = ex.Index, ex.Tuple
+	}
+	call, ok := v.(*ssa.Call)
+	if !ok {
+		return 3
+	}
+	callee := staticCallee(call)
+	if callee == nil || len(callee.Blocks) == 0 || !e.x.p.IsRepoFn(callee) {
+		return 3
+	}
+	return e.outcome(callee, idx, depth+1)
+}
+
+// cond: possible truth values of a boolean value evaluated in block cur
+// entered from block from (nil = unknown).
+func (e *c14totEval) cond(v ssa.Value, cur, from *ssa.BasicBlock, depth int) uint8 {
+	if depth > 8 {
+		return 3
+	}
+	switch w := v.(type) {
+	case *ssa.Const:
+		if isConstBool(w, true) {
+			return 1
+		}
+		if isConstBool(w, false) {
+			return 2
+		}
+	case *ssa.UnOp:
+		if w.Op == token.NOT {
+			return c14swapMask(e.cond(w.X, cur, from, depth+1))
+		}
+	case *ssa.BinOp:
+		switch w.Op {
+		case token.LSS, token.LEQ, token.GTR, token.GEQ, token.EQL, token.NEQ:
+		default:
+			return 3
+		}
+		if xv, isNil, ok := nilTest(w, true); ok {
+			m := e.calleeOutcome(xv, depth)
+			if !isNil {
+				m = c14swapMask(m)
+			}
+			return m
+		}
+		if w.Op == token.EQL || w.Op == token.NEQ {
+			for _, pr := range [][2]ssa.Value{{w.X, w.Y}, {w.Y, w.X}} {
+				want := uint8(0)
+				if isConstBool(pr[1], true) {
+					want = 1
+				} else if isConstBool(pr[1], false) {
+					want = 2
+				}
+				if want == 0 {
+					continue
+				}
+				m := e.cond(pr[0], cur, from, depth+1)
+				if (want == 2) != (w.Op == token.NEQ) {
+					m = c14swapMask(m)
+				}
+				return m
+			}
+		}
+		a, okA := e.intOf(w.X)
+		b, okB := e.intOf(w.Y)
+		if !okA || !okB {
+			return 3
+		}
+		var r bool
+		switch w.Op {
+		case token.LSS:
+			r = a < b
+		case token.LEQ:
+			r = a <= b
+		case token.GTR:
+			r = a > b
+		case token.GEQ:
+			r = a >= b
+		case token.EQL:
+			r = a == b
+		case token.NEQ:
+			r = a != b
+		}
+		if r {
+			return 1
+		}
+		return 2
+	case *ssa.Phi:
+		var m uint8
+		for i, ed := range w.Edges {
+			if w.Block() == cur && from != nil && w.Block().Preds[i] != from {
+				continue
+			}
+			m |= e.cond(ed, w.Block().Preds[i], nil, depth+1)
+		}
+		if m == 0 {
+			return 3
+		}
+		return m
+	case *ssa.Call, *ssa.Extract:
+		if b, ok := v.Type().Underlying().(*types.Basic); ok && b.Info()&types.IsBoolean != 0 {
+			return e.calleeOutcome(v, depth)
+		}
+	}
+	return 3
+}
+
+// outcome: possible classes of result idx (-1 = last) of fn.
+func (e *c14totEval) outcome(fn *ssa.Function, idx int, depth int) uint8 {
+	if depth > 3 || len(fn.Blocks) == 0 {
+		return 3
+	}
+	type st struct{ b, from *ssa.BasicBlock }
+	seen := map[st]bool{}
+	var mask uint8
+	var walk func(b, from *ssa.BasicBlock)
+	walk = func(b, from *ssa.BasicBlock) {
+		if seen[st{b, from}] || len(b.Instrs) == 0 {
 			return
 		}
-		res := retResults(r)
-		if len(res) > 0 && isNilConst(res[len(res)-1]) {
-			succ = append(succ, r)
+		seen[st{b, from}] = true
+		switch last := b.Instrs[len(b.Instrs)-1].(type) {
+		case *ssa.Return:
+			res := retResults(last)
+			i := idx
+			if i < 0 {
+				i = len(res) - 1
+			}
+			if i < 0 || i >= len(res) {
+				mask = 3
+				return
+			}
+			mask |= e.classify(res[i], b, from, depth)
+		case *ssa.If:
+			m := e.cond(last.Cond, b, from, depth)
+			if m&1 != 0 {
+				walk(b.Succs[0], b)
+			}
+			if m&2 != 0 {
+				walk(b.Succs[1], b)
+			}
+		default:
+			for _, s := range b.Succs {
+				walk(s, b)
+			}
 		}
-	})
-	if len(succ) == 0 {
-		return 0, 0, false
 	}
-	isTot := func(v ssa.Value) bool {
-		_, ok := c14fieldLoadOf(v, fTotal)
-		return ok
+	walk(fn.Blocks[0], nil)
+	return mask
+}
+
+func (e *c14totEval) classify(v ssa.Value, b, from *ssa.BasicBlock, depth int) uint8 {
+	if depth > 8 {
+		return 3
 	}
-	lo, hi = -1<<62, 1<<62
-	for _, b := range fn.Blocks {
-		for i := range b.Succs {
-			cond, pol, okE := edgeFact(b, i)
-			if !okE {
+	if bt, ok := v.Type().Underlying().(*types.Basic); ok && bt.Info()&types.IsBoolean != 0 {
+		return e.cond(v, b, from, depth+1)
+	}
+	if isNilConst(v) {
+		return 1
+	}
+	switch w := v.(type) {
+	case *ssa.MakeInterface:
+		return 2
+	case *ssa.UnOp:
+		if _, isGlobal := w.X.(*ssa.Global); isGlobal && w.Op == token.MUL {
+			return 2 // package-level error value
+		}
+	case *ssa.Call:
+		if calleeIs(w, "errors", "New") || calleeIs(w, "fmt", "Errorf") {
+			return 2
+		}
+		return e.calleeOutcome(w, depth)
+	case *ssa.Extract:
+		return e.calleeOutcome(w, depth)
+	case *ssa.Phi:
+		var m uint8
+		for i, ed := range w.Edges {
+			if w.Block() == b && from != nil && w.Block().Preds[i] != from {
 				continue
 			}
-			c0, p0 := cond, pol
-			this := func(cc ssa.Value, pp bool) bool { return cc == c0 && pp == p0 }
-			all := true
-			for _, r := range succ {
-				if !guardedBy(r, this) {
-					all = false
+			m |= e.classify(ed, w.Block().Preds[i], nil, depth+1)
+		}
+		if m != 0 {
+			return m
+		}
+	}
+	return 3
+}
+
+// ---------------------------------------------------------------------------
+// R6 anchors, resolved by role (signature, data flow, use); declared names are
+// only a fallback, a missing anchor is Unres.
+
+type c14r6a struct {
+	enc, dec, writeFn, readFn           *ssa.Function
+	hdrT                                *types.Named
+	fTotal, fIdx, fID, fPad, fMin, fMax *types.Var
+	saltLen, hdrLen                     int64
+	argHdr, argPayload, argOut          int // positions in the encoder's parameter list
+}
+
+func c14isErrorType(t types.Type) bool {
+	return types.Identical(t, types.Universe.Lookup("error").Type())
+}
+
+// c14names: declared-name fallbacks are enabled (HV_C14_NONAMES=1 switches them
+// off to test that the anchors resolve by role alone).
+func c14names() bool { return os.Getenv("HV_C14_NONAMES") == "" }
+
+// c14fieldNamed: fallback lookup of a field by its declared name.
+func c14fieldNamed(n *types.Named, name string) *types.Var {
+	if !c14names() {
+		return nil
+	}
+	return c14fieldByPath(n, name)
+}
+
+// c14fieldByPath: the field a canonical one-element path refers to.
+func c14fieldByPath(n *types.Named, name string) *types.Var {
+	if n == nil {
+		return nil
+	}
+	st, ok := n.Underlying().(*types.Struct)
+	if !ok {
+		return nil
+	}
+	for i := 0; i < st.NumFields(); i++ {
+		if st.Field(i).Name() == name {
+			return st.Field(i)
+		}
+	}
+	return nil
+}
+
+func c14isInteger(t types.Type) bool {
+	b, ok := t.Underlying().(*types.Basic)
+	return ok && b.Info()&types.IsInteger != 0
+}
+
+func (x *c14ctx) r6anchors(tab *c14mapUse) *c14r6a {
+	c, p := x.c, x.p
+	a := &c14r6a{argHdr: 0, argPayload: 1, argOut: 2}
+	a.writeFn = p.MethodOf(types.NewPointer(x.connT), "WriteTo")
+	a.readFn = p.MethodOf(types.NewPointer(x.connT), "ReadFrom")
+
+	// ---- frame codec by signature: decode([]byte) (H, []byte, error), encode(H, []byte, []byte) (int, error)
+	hdrOf := func(t types.Type) *types.Named {
+		n := namedOf(t)
+		if n == nil || n.Obj().Pkg() == nil || n.Obj().Pkg().Path() != pObfs || n == x.connT || n == x.entryT || n == x.keyT {
+			return nil
+		}
+		if _, ok := n.Underlying().(*types.Struct); !ok {
+			return nil
+		}
+		return n
+	}
+	nBytes := func(fn *ssa.Function) int {
+		n := 0
+		for _, prm := range fn.Params {
+			if c14isByteSlice(prm.Type()) {
+				n++
+			}
+		}
+		return n
+	}
+	var decs []*ssa.Function
+	for _, fn := range x.fns {
+		res := fn.Signature.Results()
+		if fn.Parent() == nil && res.Len() == 3 && hdrOf(res.At(0).Type()) != nil && c14isByteSlice(res.At(1).Type()) && c14isErrorType(res.At(2).Type()) && nBytes(fn) >= 1 {
+			decs = append(decs, fn)
+		}
+	}
+	if len(decs) == 1 {
+		a.dec, a.hdrT = decs[0], hdrOf(decs[0].Signature.Results().At(0).Type())
+	} else if c14names() {
+		a.dec, a.hdrT = p.Fn(pObfs, "decodeFrame"), p.Named(pObfs, "frameHeader")
+	}
+	if a.hdrT != nil {
+		var encs []*ssa.Function
+		for _, fn := range x.fns {
+			res := fn.Signature.Results()
+			if fn.Parent() != nil || res.Len() != 2 || !c14isInteger(res.At(0).Type()) || !c14isErrorType(res.At(1).Type()) || nBytes(fn) != 2 {
+				continue
+			}
+			nh := 0
+			for _, prm := range fn.Params {
+				if namedOf(prm.Type()) == a.hdrT {
+					nh++
 				}
 			}
-			if !all {
+			if nh == 1 {
+				encs = append(encs, fn)
+			}
+		}
+		if len(encs) == 1 {
+			a.enc = encs[0]
+		} else if c14names() {
+			a.enc = p.Fn(pObfs, "encodeFrame")
+		}
+	}
+	var miss []string
+	need := func(ok bool, what string) {
+		if !ok {
+			miss = append(miss, what)
+		}
+	}
+	need(a.writeFn != nil && a.readFn != nil, "(*"+x.connT.Obj().Name()+").WriteTo/ReadFrom")
+	need(a.dec != nil && a.hdrT != nil, "frame decoder func([]byte) (header, []byte, error)")
+	need(a.enc != nil, "frame encoder func(header, payload, out []byte) (int, error)")
+	if len(miss) > 0 {
+		c.Unres("obfs: " + strings.Join(miss, "; "))
+		return nil
+	}
+	hdrField := func(r c14ref) *types.Var {
+		if !r.valid() || r.path == "" || namedOf(r.root.Type()) != a.hdrT {
+			return nil
+		}
+		return c14fieldByPath(a.hdrT, r.path)
+	}
+	// hdrFields: like hdrField, looking through helper parameters (the value is
+	// a header field at every call site), two levels.
+	var hdrFields func(r c14ref, depth int) []*types.Var
+	hdrFields = func(r c14ref, depth int) []*types.Var {
+		if f := hdrField(r); f != nil {
+			return []*types.Var{f}
+		}
+		prm, ok := r.root.(*ssa.Parameter)
+		if !ok || r.deref || r.path != "" || depth >= 2 || prm.Parent() == nil || x.la.escaped[prm.Parent()] {
+			return nil
+		}
+		fn := prm.Parent()
+		idx := -1
+		for i, q := range fn.Params {
+			if q == prm {
+				idx = i
+			}
+		}
+		var out []*types.Var
+		for _, cs := range x.la.callers[fn] {
+			if args := cs.Common().Args; idx >= 0 && idx < len(args) {
+				out = append(out, hdrFields(c14canon(args[idx]), depth+1)...)
+			}
+		}
+		return out
+	}
+	addAll := func(set map[*types.Var]bool, fs []*types.Var) {
+		for _, f := range fs {
+			set[f] = true
+		}
+	}
+	one := func(set map[*types.Var]bool) *types.Var {
+		var f *types.Var
+		for k := range set {
+			if k == nil {
 				continue
 			}
-			if l, okL := c14lowerIncl(cond, pol, isTot); okL && l > lo {
-				lo = l
+			if f != nil {
+				return nil
 			}
-			if u, okU := c14strictUpper(cond, pol, isTot); okU && u-1 < hi {
-				hi = u - 1
+			f = k
+		}
+		return f
+	}
+
+	// ---- encoder: parameter roles, header size and the padding field from
+	// the success result  n = headerSize + h.pad + len(payload)
+	{
+		pads, ks, pays := map[*types.Var]bool{}, map[int64]bool{}, map[int]bool{}
+		shape := true
+		nSucc := 0
+		allInstrs(a.enc, func(in ssa.Instruction) {
+			r, ok := in.(*ssa.Return)
+			if !ok {
+				return
+			}
+			res := retResults(r)
+			if len(res) != 2 || !isNilConst(res[1]) {
+				return
+			}
+			nSucc++
+			L := c14linOf(res[0])
+			for atom, coef := range L.t {
+				switch {
+				case coef == 1 && atom.path == "len()" && !atom.deref:
+					found := false
+					for i, prm := range a.enc.Params {
+						if atom.root == ssa.Value(prm) && c14isByteSlice(prm.Type()) {
+							pays[i], found = true, true
+						}
+					}
+					if !found {
+						shape = false
+					}
+				case coef == 1 && hdrField(atom) != nil:
+					pads[hdrField(atom)] = true
+				default:
+					shape = false
+				}
+			}
+			ks[L.k] = true
+		})
+		if shape && nSucc > 0 && len(pads) == 1 && len(ks) == 1 && len(pays) == 1 {
+			a.fPad = one(pads)
+			for k := range ks {
+				a.hdrLen = k
+			}
+			for i := range pays {
+				a.argPayload = i
+			}
+			for i, prm := range a.enc.Params {
+				if namedOf(prm.Type()) == a.hdrT {
+					a.argHdr = i
+				} else if c14isByteSlice(prm.Type()) && i != a.argPayload {
+					a.argOut = i
+				}
+			}
+		} else {
+			a.fPad = c14fieldNamed(a.hdrT, "padLen")
+			if k, ok := c14constVal(p, pObfs, "geckoHeaderSize"); ok && c14names() {
+				a.hdrLen = k
+			}
+			if len(a.enc.Params) != 3 || namedOf(a.enc.Params[0].Type()) != a.hdrT || !c14isByteSlice(a.enc.Params[1].Type()) || !c14isByteSlice(a.enc.Params[2].Type()) {
+				miss = append(miss, "roles of the frame encoder's parameters (header, payload, out)")
 			}
 		}
 	}
-	return lo, hi, lo > -1<<62 && hi < 1<<62
+
+	// ---- receiving side: which header field keys the message, sizes the slot
+	// array / is recorded as the entry's total, indexes the slot
+	{
+		totals, idxs, ids := map[*types.Var]bool{}, map[*types.Var]bool{}, map[*types.Var]bool{}
+		for _, op := range tab.writes("update") {
+			al := c14entryAlloc(op.instr.(*ssa.MapUpdate).Value)
+			if al == nil {
+				continue
+			}
+			_, fields, _ := c14allocInfo(al)
+			for _, v := range fields[x.fTotal] {
+				addAll(totals, hdrFields(c14canon(v), 0))
+			}
+			for _, v := range fields[x.fChunks] {
+				if mk, ok := c14strip(v).(*ssa.MakeSlice); ok {
+					addAll(totals, hdrFields(c14canon(mk.Len), 0))
+				}
+			}
+		}
+		for _, cs := range x.chunkStores() {
+			addAll(idxs, hdrFields(cs.idx, 0))
+		}
+		var keyID *types.Var
+		kst := x.keyT.Underlying().(*types.Struct)
+		for i := 0; i < kst.NumFields(); i++ {
+			if f := kst.Field(i); f != x.fKeyAddr {
+				if keyID != nil {
+					keyID = nil
+					break
+				}
+				keyID = f
+			}
+		}
+		if keyID != nil {
+			for _, op := range tab.ops {
+				switch y := op.instr.(type) {
+				case *ssa.Lookup:
+					addAll(ids, hdrFields(c14canonP(y.Index, []*types.Var{keyID}), 0))
+				case *ssa.MapUpdate:
+					addAll(ids, hdrFields(c14canonP(y.Key, []*types.Var{keyID}), 0))
+				}
+			}
+		}
+		a.fTotal, a.fIdx, a.fID = one(totals), one(idxs), one(ids)
+		if a.fTotal == nil {
+			a.fTotal = c14fieldNamed(a.hdrT, "totalChunks")
+		}
+		if a.fIdx == nil {
+			a.fIdx = c14fieldNamed(a.hdrT, "chunkIdx")
+		}
+		if a.fID == nil {
+			a.fID = c14fieldNamed(a.hdrT, "msgID")
+		}
+	}
+	need(a.fPad != nil && a.hdrLen > 0, "header size and padding field of the frame header (encoder result = size + pad + len(payload))")
+	need(a.fTotal != nil, "header field holding the declared chunk count")
+	need(a.fIdx != nil, "header field holding the chunk index")
+	need(a.fID != nil, "header field holding the message id")
+	if a.fTotal != nil && a.fIdx != nil && a.fID != nil && a.fPad != nil {
+		distinct := map[*types.Var]bool{a.fTotal: true, a.fIdx: true, a.fID: true, a.fPad: true}
+		need(len(distinct) == 4, "four distinct header fields (total, index, id, pad)")
+	}
+
+	// ---- configured size range: the two integer fields of the connection,
+	// ordered by the `a <= b` guard in front of the constructor's stores
+	a.fMin, a.fMax = x.sizeRangeFields()
+	need(a.fMin != nil && a.fMax != nil, "minimum / maximum packet size fields of "+x.connT.Obj().Name())
+
+	// ---- overhead of the inner obfuscation layer: Obfuscate(in, out) returns len(in) + salt
+	if k, ok := x.innerOverhead(); ok {
+		a.saltLen = k
+	} else if k, ok := c14constVal(p, pObfs, "smSaltLen"); ok && c14names() {
+		a.saltLen = k
+	} else {
+		need(false, "per-datagram overhead of the inner obfuscator (method (in, out []byte) int returning len(in)+k)")
+	}
+	if len(miss) > 0 {
+		c.Unres("obfs: " + strings.Join(miss, "; "))
+		return nil
+	}
+	if os.Getenv("HV_C14_DEBUG") != "" {
+		fmt.Fprintf(os.Stderr, "c14 anchors: enc=%s dec=%s hdr=%s total=%s idx=%s id=%s pad=%s min=%s max=%s salt=%d hdrLen=%d args=%d,%d,%d mu=%s readMu=%s received=%s etotal=%s\n",
+			fnName(a.enc), fnName(a.dec), a.hdrT.Obj().Name(), a.fTotal.Name(), a.fIdx.Name(), a.fID.Name(), a.fPad.Name(), a.fMin.Name(), a.fMax.Name(), a.saltLen, a.hdrLen,
+			a.argHdr, a.argPayload, a.argOut, x.fMu.Name(), x.fReadMu.Name(), x.fReceived.Name(), x.fTotal.Name())
+	}
+	return a
+}
+
+// sizeRangeFields: the connection's two integer fields; the one whose stored
+// value is known <= the other's before the stores (in the constructor or at
+// its call sites) is the minimum.
+func (x *c14ctx) sizeRangeFields() (fMin, fMax *types.Var) {
+	cst := x.connT.Underlying().(*types.Struct)
+	var ints []*types.Var
+	for i := 0; i < cst.NumFields(); i++ {
+		if f := cst.Field(i); c14isInteger(f.Type()) {
+			ints = append(ints, f)
+		}
+	}
+	byName := func() (*types.Var, *types.Var) {
+		if !c14names() {
+			return nil, nil
+		}
+		lo, hi := c14fieldNamed(x.connT, "minPkt"), c14fieldNamed(x.connT, "maxPkt")
+		if lo != nil && hi != nil {
+			return lo, hi
+		}
+		lo, hi = nil, nil
+		for _, f := range ints {
+			n := strings.ToLower(f.Name())
+			switch {
+			case strings.Contains(n, "min"):
+				if lo != nil {
+					return nil, nil
+				}
+				lo = f
+			case strings.Contains(n, "max"):
+				if hi != nil {
+					return nil, nil
+				}
+				hi = f
+			}
+		}
+		return lo, hi
+	}
+	if len(ints) != 2 {
+		return byName()
+	}
+	A, B := ints[0], ints[1]
+	le := func(u, v ssa.Value) EdgePred {
+		return func(cond ssa.Value, pol bool) bool {
+			l, r, op, ok := c14rel(cond, pol)
+			if !ok {
+				return false
+			}
+			l, r = c14strip(l), c14strip(r)
+			switch op {
+			case token.LEQ, token.LSS:
+				return l == u && r == v
+			case token.GEQ, token.GTR:
+				return l == v && r == u
+			}
+			return false
+		}
+	}
+	// order: +1 u <= v known at `at`, -1 v <= u known, 0 unknown, 2 contradictory
+	var order func(u, v ssa.Value, at ssa.Instruction, depth int) int
+	order = func(u, v ssa.Value, at ssa.Instruction, depth int) int {
+		u, v = c14strip(resolve(u)), c14strip(resolve(v))
+		if guardedBy(at, le(u, v)) {
+			return +1
+		}
+		if guardedBy(at, le(v, u)) {
+			return -1
+		}
+		fn := at.Parent()
+		pu, okU := u.(*ssa.Parameter)
+		pv, okV := v.(*ssa.Parameter)
+		if !okU || !okV || depth >= 2 || x.la.escaped[fn] {
+			return 0
+		}
+		iu, iv := -1, -1
+		for i, prm := range fn.Params {
+			if prm == pu {
+				iu = i
+			}
+			if prm == pv {
+				iv = i
+			}
+		}
+		if iu < 0 || iv < 0 {
+			return 0
+		}
+		res := 0
+		for _, cs := range x.la.callers[fn] {
+			args := cs.Common().Args
+			if iu >= len(args) || iv >= len(args) {
+				continue
+			}
+			o := order(args[iu], args[iv], cs.(ssa.Instruction), depth+1)
+			switch {
+			case o == 0:
+			case res == 0:
+				res = o
+			case res != o:
+				return 2
+			}
+		}
+		return res
+	}
+	verdict := 0
+	for _, sa := range fieldRefs(x.fns, A) {
+		if sa.Kind != "store" {
+			continue
+		}
+		for _, sb := range fieldRefs([]*ssa.Function{sa.Fn}, B) {
+			if sb.Kind != "store" {
+				continue
+			}
+			o := order(sa.Val, sb.Val, sa.Instr, 0)
+			switch {
+			case o == 0:
+			case verdict == 0:
+				verdict = o
+			case verdict != o:
+				verdict = 2
+			}
+		}
+	}
+	switch verdict {
+	case +1:
+		return A, B
+	case -1:
+		return B, A
+	}
+	return byName()
+}
+
+// innerOverhead: the k > 0 of the obfs package's methods (in, out []byte) int
+// whose non-zero results are all len(in) + k (the salt the inner Salamander
+// layer prepends to every datagram Gecko emits).
+func (x *c14ctx) innerOverhead() (int64, bool) {
+	ks := map[int64]bool{}
+	for _, fn := range x.fns {
+		sig := fn.Signature
+		if fn.Parent() != nil || sig.Recv() == nil || namedOf(sig.Recv().Type()) == x.connT || sig.Params().Len() != 2 || sig.Results().Len() != 1 ||
+			!c14isByteSlice(sig.Params().At(0).Type()) || !c14isByteSlice(sig.Params().At(1).Type()) || !c14isInteger(sig.Results().At(0).Type()) || len(fn.Params) != 3 {
+			continue
+		}
+		in := fn.Params[1]
+		want := c14canon(in)
+		want.path = "len()"
+		shape, n := true, 0
+		var k int64
+		allInstrs(fn, func(y ssa.Instruction) {
+			r, ok := y.(*ssa.Return)
+			if !ok {
+				return
+			}
+			res := retResults(r)
+			if len(res) != 1 {
+				shape = false
+				return
+			}
+			if isConstInt(res[0], 0) {
+				return
+			}
+			L := c14linOf(res[0])
+			if len(L.t) != 1 || L.t[want] != 1 || (n > 0 && L.k != k) {
+				shape = false
+				return
+			}
+			k = L.k
+			n++
+		})
+		if shape && n > 0 && k > 0 {
+			ks[k] = true
+		}
+	}
+	if len(ks) != 1 {
+		return 0, false
+	}
+	for k := range ks {
+		return k, true
+	}
+	return 0, false
 }
 
 func c14blockReaches(from, to *ssa.BasicBlock) bool {
@@ -2561,23 +3925,18 @@ func c14blockReaches(from, to *ssa.BasicBlock) bool {
 	return walk(from)
 }
 
-func (x *c14ctx) r6() {
+func (x *c14ctx) r6(tab *c14mapUse) {
 	c, p := x.c, x.p
 	const r6 = "C14.R6 long-header packets (p[0]&0x80 != 0) and only they are fragmented / reassembled, everything else passes through unchanged; chunk count within the decoder's range; one message id, the loop index and the drawn total in every frame; padding computed for the framed payload and within [lo-base, max-base]"
-	enc, dec := p.Fn(pObfs, "encodeFrame"), p.Fn(pObfs, "decodeFrame")
-	fHdrTotal := p.Field(pObfs, "frameHeader", "totalChunks")
-	fHdrIdx := p.Field(pObfs, "frameHeader", "chunkIdx")
-	fHdrID := p.Field(pObfs, "frameHeader", "msgID")
-	fHdrPad := p.Field(pObfs, "frameHeader", "padLen")
-	fMin, fMax := p.Field(pObfs, x.connT.Obj().Name(), "minPkt"), p.Field(pObfs, x.connT.Obj().Name(), "maxPkt")
-	writeFn := p.MethodOf(types.NewPointer(x.connT), "WriteTo")
-	readFn := p.MethodOf(types.NewPointer(x.connT), "ReadFrom")
-	saltLen, ok1 := c14constVal(p, pObfs, "smSaltLen")
-	hdrLen, ok2 := c14constVal(p, pObfs, "geckoHeaderSize")
-	if enc == nil || dec == nil || fHdrTotal == nil || fHdrIdx == nil || fHdrID == nil || fHdrPad == nil || fMin == nil || fMax == nil || writeFn == nil || readFn == nil || !ok1 || !ok2 {
-		c.Unres("obfs encodeFrame/decodeFrame, frameHeader.{totalChunks,chunkIdx,msgID,padLen}, minPkt/maxPkt, WriteTo/ReadFrom, smSaltLen/geckoHeaderSize")
+	a := x.r6anchors(tab)
+	if a == nil {
 		return
 	}
+	enc, dec := a.enc, a.dec
+	fHdrTotal, fHdrIdx, fHdrID, fHdrPad := a.fTotal, a.fIdx, a.fID, a.fPad
+	fMin, fMax := a.fMin, a.fMax
+	writeFn, readFn := a.writeFn, a.readFn
+	saltLen, hdrLen := a.saltLen, a.hdrLen
 	for _, f := range []*ssa.Function{enc, dec, writeFn, readFn} {
 		c.Saw(fnName(f))
 	}
@@ -2598,14 +3957,31 @@ func (x *c14ctx) r6() {
 		}
 	}
 	c.Floor("C14.R6:fragmenter", len(frags), 1)
-	isFrag := func(f *ssa.Function) bool {
+	// isFrag: the function frames chunks itself or through a package helper
+	// (sendChunk(...) extracted from the loop body), two levels
+	var reachesEnc func(f *ssa.Function, depth int) bool
+	reachesEnc = func(f *ssa.Function, depth int) bool {
 		for _, g := range frags {
 			if g == f {
 				return true
 			}
 		}
-		return false
+		if depth >= 2 || f == nil {
+			return false
+		}
+		found := false
+		allInstrs(f, func(in ssa.Instruction) {
+			if call, ok := in.(*ssa.Call); ok && !found {
+				if cal := staticCallee(call); cal != nil && cal != f && len(cal.Blocks) > 0 {
+					if pk := fnPkg(cal); pk != nil && pk.Pkg.Path() == pObfs && reachesEnc(cal, depth+1) {
+						found = true
+					}
+				}
+			}
+		})
+		return found
 	}
+	isFrag := func(f *ssa.Function) bool { return f != writeFn && reachesEnc(f, 0) }
 
 	// ---- WriteTo dispatch
 	{
@@ -2642,12 +4018,62 @@ func (x *c14ctx) r6() {
 		isBuf := func(v ssa.Value) bool { return isLoadOfField(v, x.fReadBuf) }
 		long := func(cond ssa.Value, pol bool) bool { s, ok := c14topBit(cond, pol, isBuf); return ok && s }
 		short := func(cond ssa.Value, pol bool) bool { s, ok := c14topBit(cond, pol, isBuf); return ok && !s }
+		// the receive loop body may have been extracted: analyse the function
+		// (ReadFrom itself or a package helper it calls, two levels) that reads
+		// from the inner conn
 		var innerRead *ssa.Call
-		allInstrs(readFn, func(in ssa.Instruction) {
-			if call := isInnerCall(in, "ReadFrom"); call != nil {
-				innerRead = call
+		readBody := readFn
+		{
+			level := []*ssa.Function{readFn}
+			seenFn := map[*ssa.Function]bool{readFn: true}
+			for depth := 0; depth < 3 && innerRead == nil; depth++ {
+				var next []*ssa.Function
+				for _, f := range level {
+					allInstrs(f, func(in ssa.Instruction) {
+						if call := isInnerCall(in, "ReadFrom"); call != nil && innerRead == nil {
+							innerRead, readBody = call, f
+						}
+						if call, ok := in.(*ssa.Call); ok {
+							if cal := staticCallee(call); cal != nil && len(cal.Blocks) > 0 && !seenFn[cal] {
+								if pk := fnPkg(cal); pk != nil && pk.Pkg.Path() == pObfs {
+									seenFn[cal] = true
+									next = append(next, cal)
+								}
+							}
+						}
+					})
+				}
+				level = next
 			}
-		})
+			if readBody != readFn {
+				c.Saw(fnName(readBody))
+			}
+		}
+		// callerP: the value is the caller's destination buffer p of ReadFrom,
+		// possibly handed down through the helpers' parameters
+		var callerP func(v ssa.Value, depth int) bool
+		callerP = func(v ssa.Value, depth int) bool {
+			v = c14strip(resolve(v))
+			if v == ssa.Value(readFn.Params[1]) {
+				return true
+			}
+			prm, ok := v.(*ssa.Parameter)
+			if !ok || depth >= 2 || prm.Parent() == readFn || x.la.escaped[prm.Parent()] || len(x.la.callers[prm.Parent()]) == 0 {
+				return false
+			}
+			idx := -1
+			for i, q := range prm.Parent().Params {
+				if q == prm {
+					idx = i
+				}
+			}
+			for _, cs := range x.la.callers[prm.Parent()] {
+				if args := cs.Common().Args; idx < 0 || idx >= len(args) || !callerP(args[idx], depth+1) {
+					return false
+				}
+			}
+			return true
+		}
 		nOf := func(v ssa.Value) bool {
 			return innerRead != nil && c14strip(resolve(v)) == extractOf(innerRead, 0)
 		}
@@ -2656,7 +4082,7 @@ func (x *c14ctx) r6() {
 			return ok && isBuf(s.X) && s.Low == nil && s.High != nil && nOf(s.High)
 		}
 		nD, nRaw := 0, 0
-		allInstrs(readFn, func(in ssa.Instruction) {
+		allInstrs(readBody, func(in ssa.Instruction) {
 			call, ok := in.(*ssa.Call)
 			if !ok {
 				return
@@ -2669,7 +4095,7 @@ func (x *c14ctx) r6() {
 			if isBuiltinCall(call, "copy") && len(call.Call.Args) == 2 {
 				if s, ok := c14strip(call.Call.Args[1]).(*ssa.Slice); ok && isBuf(s.X) {
 					nRaw++
-					c.Req(guardedBy(call, short) && rawSlice(call.Call.Args[1]) && c14strip(resolve(call.Call.Args[0])) == ssa.Value(readFn.Params[1]), ord.key("C14.R6:ReadFrom:passthrough-short-header"), r6, p.InstrPos(call),
+					c.Req(guardedBy(call, short) && rawSlice(call.Call.Args[1]) && callerP(call.Call.Args[0], 0), ord.key("C14.R6:ReadFrom:passthrough-short-header"), r6, p.InstrPos(call),
 						"raw bytes of the read buffer are handed up outside the `buf[0]&0x80 == 0` edge or not as buf[:n] (short-header packets must pass through unchanged, fragments must not leak up)")
 				}
 			}
@@ -2679,8 +4105,8 @@ func (x *c14ctx) r6() {
 	}
 
 	// ---- chunk count range
-	decLo, decHi, okD := x.totalRange(dec, fHdrTotal)
-	encLo, encHi, okE := x.totalRange(enc, fHdrTotal)
+	accD, okD := x.totalAccepted(dec, fHdrTotal)
+	accE, okE := x.totalAccepted(enc, fHdrTotal)
 	if !okD || !okE {
 		c.Undecided("C14.R6:total-range", r6, p.Pos(dec.Pos()), "cannot derive the accepted range of totalChunks from the encoder/decoder guards")
 	}
@@ -2691,76 +4117,188 @@ func (x *c14ctx) r6() {
 		base := "C14.R6:" + fnName(W)
 		for _, ci := range callsIn(W, func(ci ssa.CallInstruction) bool { return staticCallee(ci) == enc }) {
 			E := ci.(*ssa.Call)
-			hdr := E.Call.Args[0]
-			comp := func(f *types.Var) ssa.Value { return c14canonP(hdr, []*types.Var{f}).root }
-			// total: interval within both ranges
-			T := comp(fHdrTotal)
-			iv := c14ival(T, map[ssa.Value]c14iv{}, 0)
-			if !iv.ok {
-				c.Undecided(base+":chunk-count", r6, p.InstrPos(E), "cannot bound the drawn chunk count")
-			} else if okD && okE {
-				lo, hi := c14maxI(decLo, encLo), c14minI(c14minI(decHi, encHi), 15)
-				c.Req(iv.lo >= lo && iv.hi <= hi, base+":chunk-count", r6, p.InstrPos(E),
-					fmt.Sprintf("the sender draws a chunk count in [%d,%d] but encoder/decoder and the 4-bit field accept only [%d,%d] (such handshake packets are lost)", iv.lo, iv.hi, lo, hi))
+			hdr := E.Call.Args[a.argHdr]
+			// sites: the encoder call itself, or - when the header components are
+			// parameters of W (loop body extracted into a helper) - the calls of
+			// W with the components substituted by the arguments, two levels
+			type encSite struct {
+				W       *ssa.Function
+				at      *ssa.Call
+				comp    func(f *types.Var) c14ref
+				payload ssa.Value
+				inner   *encSite
 			}
-			// index: induction variable of the enclosing loop, bound = total
-			idxV := comp(fHdrIdx)
-			ph, isPhi := idxV.(*ssa.Phi)
-			okIdx := false
-			if isPhi && len(ph.Edges) == 2 {
-				var inc *ssa.BinOp
-				zero := false
-				for _, e := range ph.Edges {
-					if isConstInt(e, 0) {
-						zero = true
-					} else if b, ok := e.(*ssa.BinOp); ok && b.Op == token.ADD && b.X == ssa.Value(ph) && isConstInt(b.Y, 1) {
-						inc = b
+			sites := []*encSite{{W: W, at: E, comp: func(f *types.Var) c14ref { return c14canonP(hdr, []*types.Var{f}) }, payload: E.Call.Args[a.argPayload]}}
+			for lvl := 0; lvl < 2; lvl++ {
+				var next []*encSite
+				for _, st := range sites {
+					st := st
+					ownParam := func(r c14ref) int {
+						prm, ok := r.root.(*ssa.Parameter)
+						if !ok || prm.Parent() != st.W || r.deref {
+							return -1
+						}
+						for i, q := range st.W.Params {
+							if q == prm {
+								return i
+							}
+						}
+						return -1
+					}
+					need := false
+					for _, f := range []*types.Var{fHdrIdx, fHdrTotal, fHdrID} {
+						if ownParam(st.comp(f)) >= 0 {
+							need = true
+						}
+					}
+					if !need || x.la.escaped[st.W] || len(x.la.callers[st.W]) == 0 {
+						next = append(next, st)
+						continue
+					}
+					for _, cs := range x.la.callers[st.W] {
+						call, ok := cs.(*ssa.Call)
+						if !ok {
+							continue
+						}
+						args := call.Call.Args
+						sub := func(r c14ref, f *types.Var) c14ref {
+							k := ownParam(r)
+							if k < 0 || k >= len(args) {
+								return r
+							}
+							switch {
+							case r.path == "":
+								return c14canon(args[k])
+							case f != nil && r.path == f.Name():
+								return c14canonP(args[k], []*types.Var{f})
+							}
+							return r
+						}
+						ns := &encSite{W: call.Parent(), at: call, inner: st}
+						ns.comp = func(f *types.Var) c14ref { return sub(st.comp(f), f) }
+						ns.payload = st.payload
+						if pr := c14canon(st.payload); pr.path == "" {
+							if k := ownParam(pr); k >= 0 && k < len(args) {
+								ns.payload = args[k]
+							}
+						}
+						next = append(next, ns)
 					}
 				}
-				if zero && inc != nil {
-					for _, iv := range []ssa.Value{inc, ph} {
-						for _, r := range *iv.Referrers() {
-							b, ok := r.(*ssa.BinOp)
-							if !ok || b.Op != token.LSS || b.X != iv || c14strip(b.Y) != c14strip(T) {
-								continue
+				sites = next
+			}
+			for si, st := range sites {
+				sbase := base
+				if st.at != E {
+					c.Saw(fnName(st.W))
+					sbase = fmt.Sprintf("%s:via:%s", base, fnName(st.W))
+					if si > 0 {
+						sbase = fmt.Sprintf("%s#%d", sbase, si+1)
+					}
+				}
+				comp := func(f *types.Var) ssa.Value { return st.comp(f).root }
+				at := st.at
+				// total: interval within both ranges
+				T := comp(fHdrTotal)
+				iv := c14ival(T, map[ssa.Value]c14iv{}, 0)
+				if !iv.ok {
+					c.Undecided(sbase+":chunk-count", r6, p.InstrPos(at), "cannot bound the drawn chunk count")
+				} else if okD && okE {
+					// accepted by encoder, decoder and the 4-bit wire field
+					lo, hi := int64(-1), int64(-1)
+					for t := int64(0); t <= 15; t++ {
+						if accD[t] && accE[t] {
+							if lo < 0 {
+								lo = t
 							}
-							// the test controls the loop: it is the condition of a branch
-							for _, rr := range *b.Referrers() {
-								if _, isIf := rr.(*ssa.If); isIf {
-									okIdx = true
+							hi = t
+						}
+					}
+					inside := iv.lo <= iv.hi
+					for t := iv.lo; t <= iv.hi && inside; t++ {
+						if t < 0 || t > 15 || !accD[t] || !accE[t] {
+							inside = false
+						}
+					}
+					c.Req(inside, sbase+":chunk-count", r6, p.InstrPos(at),
+						fmt.Sprintf("the sender draws a chunk count in [%d,%d] but encoder/decoder and the 4-bit field accept only [%d,%d] (such handshake packets are lost)", iv.lo, iv.hi, lo, hi))
+				}
+				// index: induction variable of the enclosing loop, bound = total
+				idxV := comp(fHdrIdx)
+				ph, isPhi := idxV.(*ssa.Phi)
+				okIdx := false
+				if isPhi && len(ph.Edges) == 2 {
+					var inc *ssa.BinOp
+					zero := false
+					for _, e := range ph.Edges {
+						if isConstInt(e, 0) {
+							zero = true
+						} else if b, ok := e.(*ssa.BinOp); ok && b.Op == token.ADD && b.X == ssa.Value(ph) && isConstInt(b.Y, 1) {
+							inc = b
+						}
+					}
+					if zero && inc != nil {
+						for _, iv := range []ssa.Value{inc, ph} {
+							for _, r := range *iv.Referrers() {
+								b, ok := r.(*ssa.BinOp)
+								if !ok || b.Op != token.LSS || b.X != iv || c14strip(b.Y) != c14strip(T) {
+									continue
+								}
+								// the test controls the loop: it is the condition of a branch
+								for _, rr := range *b.Referrers() {
+									if _, isIf := rr.(*ssa.If); isIf {
+										okIdx = true
+									}
 								}
 							}
 						}
 					}
 				}
-			}
-			c.Req(okIdx && c14blockReaches(E.Block(), E.Block()), base+":index-and-total", r6, p.InstrPos(E),
-				"the frames of one message do not carry chunkIdx = loop index i (0,1,..) and totalChunks = the loop bound (chunks land in wrong slots or the receiver waits for a different count)")
-			// message id: not a constant, evaluated once per message
-			idV := comp(fHdrID)
-			idIn, isInstr := idV.(ssa.Instruction)
-			_, isConst := idV.(*ssa.Const)
-			okID := !isConst && (!isInstr || !c14blockReaches(E.Block(), idIn.Block()))
-			c.Req(okID, base+":one-message-id", r6, p.InstrPos(E),
-				"the message id is a constant or is re-evaluated per chunk (chunks of one packet are filed under different messages / different packets share one)")
-			// padding computed for this payload
-			padV := comp(fHdrPad)
-			padCall, _ := padV.(*ssa.Call)
-			okPad := false
-			if padCall != nil && staticCallee(padCall) != nil {
-				for _, a := range callArgs(padCall) {
-					if la := c14lenArg(a); la != nil && c14same(la, E.Call.Args[1]) {
-						okPad = true
+				c.Req(okIdx && c14blockReaches(at.Block(), at.Block()), sbase+":index-and-total", r6, p.InstrPos(at),
+					"the frames of one message do not carry chunkIdx = loop index i (0,1,..) and totalChunks = the loop bound (chunks land in wrong slots or the receiver waits for a different count)")
+				// message id: not a constant, evaluated once per message
+				idV := comp(fHdrID)
+				idIn, isInstr := idV.(ssa.Instruction)
+				_, isConst := idV.(*ssa.Const)
+				okID := !isConst
+				if isInstr {
+					if idIn.Parent() == at.Parent() {
+						okID = okID && !c14blockReaches(at.Block(), idIn.Block())
+					} else {
+						// drawn inside the helper: once per call of the helper
+						okID = okID && !c14blockReaches(at.Block(), at.Block())
 					}
 				}
-			}
-			c.Req(okPad, base+":pad-for-payload", r6, p.InstrPos(E),
-				"the padding is not computed from len() of the payload that is framed (the last chunk is longer: datagram exceeds the maximum size)")
-			if padCall != nil && staticCallee(padCall) != nil {
-				x.padBound(staticCallee(padCall), fMin, fMax, saltLen+hdrLen, r6)
+				c.Req(okID, sbase+":one-message-id", r6, p.InstrPos(at),
+					"the message id is a constant or is re-evaluated per chunk (chunks of one packet are filed under different messages / different packets share one)")
+				// padding computed for this payload
+				padV := comp(fHdrPad)
+				padCall, _ := padV.(*ssa.Call)
+				okPad := false
+				lenIdx := -1
+				if padCall != nil && staticCallee(padCall) != nil {
+					// the payload as seen by the function that computes the padding
+					var pay ssa.Value
+					for q := st; q != nil; q = q.inner {
+						if q.W == padCall.Parent() {
+							pay = q.payload
+						}
+					}
+					for i, pa := range padCall.Call.Args {
+						if la := c14lenArg(pa); la != nil && pay != nil && c14same(la, pay) {
+							okPad = true
+							lenIdx = i
+						}
+					}
+				}
+				c.Req(okPad, sbase+":pad-for-payload", r6, p.InstrPos(at),
+					"the padding is not computed from len() of the payload that is framed (the last chunk is longer: datagram exceeds the maximum size)")
+				if padCall != nil && staticCallee(padCall) != nil {
+					x.padBound(staticCallee(padCall), lenIdx, fMin, fMax, saltLen+hdrLen, r6)
+				}
 			}
 			// the encoded frame goes to the inner conn, to the caller's address
-			out := E.Call.Args[2]
+			out := E.Call.Args[a.argOut]
 			nW := extractOf(E, 0)
 			isSend := func(in ssa.Instruction) bool {
 				call := isInnerCall(in, "WriteTo")
@@ -2771,7 +4309,10 @@ func (x *c14ctx) r6() {
 				if !ok || c14strip(s.X) != c14strip(out) || s.Low != nil || s.High == nil || c14strip(s.High) != nW {
 					return false
 				}
-				return len(W.Params) == 3 && c14strip(resolve(call.Call.Args[1])) == ssa.Value(W.Params[2])
+				// at the caller's address: a net.Addr parameter of W (WriteTo's dispatch
+				// rule checks that WriteTo hands its own addr down)
+				prm, isPrm := c14strip(resolve(call.Call.Args[1])).(*ssa.Parameter)
+				return isPrm && prm.Parent() == W && c14isNamed(prm.Type(), "net", "Addr")
 			}
 			errV := extractOf(E, 1)
 			failed := func(cond ssa.Value, pol bool) bool {
@@ -2841,7 +4382,7 @@ func c14randBound(fn *ssa.Function) bool {
 // padBound: the padding function returns 0 only on the `lo > max` edge and
 // otherwise (lo-base) + rnd(max-lo+1) with lo = max(min, base),
 // base = salt + header + chunkLen: the datagram size base+pad lies in [lo, max].
-func (x *c14ctx) padBound(PF *ssa.Function, fMin, fMax *types.Var, overhead int64, rule string) {
+func (x *c14ctx) padBound(PF *ssa.Function, lenIdx int, fMin, fMax *types.Var, overhead int64, rule string) {
 	c, p := x.c, x.p
 	if x.deleterMemo[PF] == -2 {
 		return // already examined
@@ -2849,9 +4390,40 @@ func (x *c14ctx) padBound(PF *ssa.Function, fMin, fMax *types.Var, overhead int6
 	x.deleterMemo[PF] = -2
 	c.Saw(fnName(PF))
 	base := "C14.R6:" + fnName(PF)
+	// the configured bounds are loads of the fields, or (pure padding function)
+	// parameters that receive a load of the field at every call site
+	fromField := func(prm *ssa.Parameter, f *types.Var) bool {
+		idx := -1
+		for i, q := range PF.Params {
+			if q == prm {
+				idx = i
+			}
+		}
+		cs := x.la.callers[PF]
+		if idx < 0 || len(cs) == 0 || x.la.escaped[PF] {
+			return false
+		}
+		for _, call := range cs {
+			args := call.Common().Args
+			if idx >= len(args) || !isLoadOfField(args[idx], f) {
+				return false
+			}
+		}
+		return true
+	}
+	isBoundV := func(v ssa.Value, f *types.Var) bool {
+		if isLoadOfField(v, f) {
+			return true
+		}
+		prm, ok := c14strip(resolve(v)).(*ssa.Parameter)
+		return ok && prm.Parent() == PF && fromField(prm, f)
+	}
 	var chunkLen *ssa.Parameter
-	for _, prm := range PF.Params {
-		if b, ok := prm.Type().Underlying().(*types.Basic); ok && b.Info()&types.IsInteger != 0 {
+	for i, prm := range PF.Params {
+		if !c14isInteger(prm.Type()) || fromField(prm, fMin) || fromField(prm, fMax) {
+			continue
+		}
+		if lenIdx < 0 || i == lenIdx {
 			chunkLen = prm
 		}
 	}
@@ -2860,7 +4432,7 @@ func (x *c14ctx) padBound(PF *ssa.Function, fMin, fMax *types.Var, overhead int6
 		return
 	}
 	baseLin := c14lin{k: overhead, t: map[c14ref]int64{c14canon(chunkLen): 1}}
-	maxLin := func(v ssa.Value) bool { return isLoadOfField(v, fMax) }
+	maxLin := func(v ssa.Value) bool { return isBoundV(v, fMax) }
 	linEq := func(a, b ssa.Value) bool { return c14linOf(a).eq(c14linOf(b)) }
 	// lo = max(min, base)
 	baseSeen := ""
@@ -2869,7 +4441,7 @@ func (x *c14ctx) padBound(PF *ssa.Function, fMin, fMax *types.Var, overhead int6
 		if call, ok := v.(*ssa.Call); ok && isBuiltinCall(call, "max") && len(call.Call.Args) == 2 {
 			a, b := call.Call.Args[0], call.Call.Args[1]
 			for _, pr := range [][2]ssa.Value{{a, b}, {b, a}} {
-				if isLoadOfField(pr[0], fMin) {
+				if isBoundV(pr[0], fMin) {
 					if c14linOf(pr[1]).eq(baseLin) {
 						return true
 					}
@@ -2885,7 +4457,7 @@ func (x *c14ctx) padBound(PF *ssa.Function, fMin, fMax *types.Var, overhead int6
 		hasMin, hasBase := false, false
 		for i, e := range ph.Edges {
 			o := ph.Edges[1-i]
-			if isLoadOfField(e, fMin) {
+			if isBoundV(e, fMin) {
 				hasMin = true
 			} else if c14linOf(e).eq(baseLin) {
 				hasBase = true
@@ -2927,32 +4499,28 @@ func (x *c14ctx) padBound(PF *ssa.Function, fMin, fMax *types.Var, overhead int6
 		}
 	}
 	nRet := 0
-	allInstrs(PF, func(in ssa.Instruction) {
-		r, ok := in.(*ssa.Return)
-		if !ok {
-			return
-		}
-		res := retResults(r)
-		if len(res) != 1 {
-			return
-		}
+	ordP := c14ord{}
+	// one result value of the padding function: val is what is returned
+	// whenever the path is `guarded` (a return instruction, or one incoming
+	// edge of the phi returned by a single-exit function)
+	checkResult := func(val ssa.Value, guarded func(EdgePred) bool, pos string) {
 		nRet++
-		if isConstInt(res[0], 0) {
-			c.Req(guardedBy(r, loGTmax(true)), base+":zero-only-when-too-big", rule, p.InstrPos(r),
+		if isConstInt(c14strip(val), 0) {
+			c.Req(guarded(loGTmax(true)), ordP.key(base+":zero-only-when-too-big"), rule, pos,
 				"padding 0 is returned without the `max(min, salt+header+chunk) > max` edge (a small chunk goes out unpadded: datagram below the configured minimum)")
 			return
 		}
 		good := false
 		detail := "the padding is not (lo - base) + rnd(max - lo + 1) with lo = max(min, base), base = salt+header+chunkLen"
 		{
-			L := c14linOf(res[0])
+			L := c14linOf(val)
 			for atom, coef := range L.t {
 				call, ok := atom.root.(*ssa.Call)
 				if !ok || coef != 1 || atom.deref || atom.path != "" || staticCallee(call) == nil || !c14randBound(staticCallee(call)) || len(call.Call.Args) != 1 {
 					continue
 				}
 				linA := L.plus(c14lin{t: map[c14ref]int64{atom: 1}}, -1)
-				if !guardedBy(r, loGTmax(false)) || loVal == nil {
+				if !guarded(loGTmax(false)) || loVal == nil {
 					detail = "the random part's range max-lo+1 is not known positive (no `lo <= max` edge before it)"
 					continue
 				}
@@ -2960,6 +4528,11 @@ func (x *c14ctx) padBound(PF *ssa.Function, fMin, fMax *types.Var, overhead int6
 				loLin := c14lin{t: map[c14ref]int64{c14canon(loVal): 1}}
 				maxL := c14lin{t: map[c14ref]int64{}}
 				// any load of max is the same atom
+				for _, prm := range PF.Params {
+					if isBoundV(prm, fMax) && len(maxL.t) == 0 {
+						maxL.t[c14canon(prm)] = 1
+					}
+				}
 				allInstrs(PF, func(y ssa.Instruction) {
 					if v, ok := y.(ssa.Value); ok && isLoadOfField(v, fMax) && len(maxL.t) == 0 {
 						maxL.t[c14canon(v)] = 1
@@ -2983,7 +4556,25 @@ func (x *c14ctx) padBound(PF *ssa.Function, fMin, fMax *types.Var, overhead int6
 		if !good && baseSeen != "" {
 			detail = fmt.Sprintf("lo is max(min, %s) but a datagram is salt+header+chunk = %s bytes before padding (sizes are off by the difference)", baseSeen, baseLin.String())
 		}
-		c.Req(good, base+":pad-range", rule, p.InstrPos(r), detail)
+		c.Req(good, ordP.key(base+":pad-range"), rule, pos, detail)
+	}
+	allInstrs(PF, func(in ssa.Instruction) {
+		r, ok := in.(*ssa.Return)
+		if !ok {
+			return
+		}
+		res := retResults(r)
+		if len(res) != 1 {
+			return
+		}
+		if ph, isPhi := c14strip(res[0]).(*ssa.Phi); isPhi {
+			for i, e := range ph.Edges {
+				from, to := ph.Block().Preds[i], ph.Block()
+				checkResult(e, func(pred EdgePred) bool { return cfgEdgeGuardedBy(from, to, pred) }, p.InstrPos(r))
+			}
+			return
+		}
+		checkResult(res[0], func(pred EdgePred) bool { return guardedBy(r, pred) }, p.InstrPos(r))
 	})
 	c.Floor(base+":returns", nRet, 2)
 }
@@ -3002,7 +4593,7 @@ func checkC14(c *Check) {
 	x.r3(tab, cen)
 	x.r4(tab)
 	x.r5(tab)
-	x.r6()
+	x.r6(tab)
 }
 
 // isRangeKeyOf: v is the key produced by ranging over the map.
